@@ -23,6 +23,15 @@ function or a bottom primitive (`IO_PRIMS`), any other method call fails; the un
 newtypes are erased (their operators are checked against semtype.rs, `io_pin_semtype`); a `while`
 loop becomes an auxiliary function recursive on an explicit `fuel`; `return Ok(x)` is supported as
 the last statement of an `if` block (also inside a loop).
+Second batch of the I/O subset: the piece-level I/O of the value file and the key file (val.rs `ValuePiece`,
+`VarFileValueCache`; key.rs `KeyPiece<KT>`, `VarFileKeyCache<KT>`): the VarFile is `self.0` / a parameter
+`file: &mut VarFile`; the piece structs are flattened into their fields (definition and constructors pinned
+token-wise, `IO_STRUCTS`; a field that the function assigns before it reads it is not a parameter; of a
+returned struct the configured fields are the value, the others must be unchanged parameters); keys and byte
+buffers are `List Nat`; `assert!` is `FileM.fail`; `let (a, b) = if c { … } else { (call?, x) };`; an `if`
+with a `return` in a branch continues every other branch with the rest of the block; the `match` of the
+error recovery around `dat_write_piece_one` is accepted in exactly that shape and its `Err` arm dropped (named
+in the doc comment).
 When the translation fails, Funcs.lean (and FileOps.lean; FileOps.lean alone when only the I/O
 stage failed) is replaced by a file that does not build.
 Python 3 standard library only.
@@ -260,6 +269,19 @@ class P:
             e = None if self.at(";") else self.expr()
             self.eat(";")
             return ("return", e)
+        if v == "assert!" and self.keep_try:
+            # imperative I/O subset: `assert!(cond, msg..)` is kept (a failure of the monad)
+            self.next()
+            self.expect("(")
+            c = self.expr()
+            depth = 1
+            while depth:
+                tk = self.next()[1]
+                depth += (tk == "(") - (tk == ")")
+                if tk == "":
+                    fail(self.where + ": unterminated macro group")
+            self.eat(";")
+            return ("assert", c)
         if v in ("debug_assert!", "debug_assert_eq!", "assert!"):
             self.next()
             self.skip_group()
@@ -465,6 +487,9 @@ class P:
                 binder = None
                 if self.eat("("):
                     binder = self.next()[1]
+                    if binder == "(":
+                        self.expect(")")          # `Ok(())`
+                        binder = "()"
                     self.expect(")")
                 self.expect("=>")
                 body = self.expr()
@@ -1427,29 +1452,107 @@ def signature_of(repo, feats, relpath):
 
 
 # ----------------------------------------------------------------------------- imperative I/O subset
-# `&mut self` methods of `VarFile` (vfile.rs, piece.rs) -> functions in the monad `Abyss.FileM.M`
-# (state = flat file + cursor, failure = `Err`).  See the header comment written to FileOps.lean.
+# `&mut self` methods of `VarFile` (vfile.rs, piece.rs) and the piece-level I/O of the two record files
+# (key.rs, val.rs) -> functions in the monad `Abyss.FileM.M` (state = flat file + cursor, failure = `Err`).
+# See the header comment written to FileOps.lean.
 IO_VF = "src/filedb/inner/vfile.rs"
 IO_PI = "src/filedb/inner/piece.rs"
 IO_ST = "src/filedb/inner/semtype.rs"
+IO_KEY = "src/filedb/inner/key.rs"
+IO_VAL = "src/filedb/inner/val.rs"
 
-# bottom primitives: method of `self` -> (Lean name, number of arguments, type of the value)
+NUMERIC = ("Offset", "Size", "Length", "int")
+
+# bottom primitives: method of the VarFile -> (Lean name, classes of the arguments, class of the value, width)
 IO_PRIMS = {
-    "read_u64_le": ("FileM.readU64Le", 0, "int"),
-    "write_u64_le": ("FileM.writeU64Le", 1, "unit"),
-    "read_and_decode_vu64": ("FileM.readVu64", 0, "int"),
-    "encode_and_write_vu64": ("FileM.writeVu64", 1, "unit"),
-    "stream_position": ("FileM.seekPosition", 0, "int"),
-    # `self.seek(SeekFrom::Start(x))` -> `FileM.seek x` and `self.buf_file.write_zero(n)` ->
-    # `FileM.writeZero n` are recognised by shape in EmitIO.mex
+    "read_u64_le": ("FileM.readU64Le", [], "int", "u64"),
+    "write_u64_le": ("FileM.writeU64Le", ["int"], "unit", None),
+    "read_and_decode_vu64": ("FileM.readVu64", [], "int", "u64"),
+    "encode_and_write_vu64": ("FileM.writeVu64", ["int"], "unit", None),
+    "stream_position": ("FileM.seekPosition", [], "int", "u64"),
+    # `std::io::Write::write_all` over `impl Write for VarFile` (= `buf_file.write`)
+    "write_all": ("FileM.writeBytes", ["bytes"], "unit", None),
+    # `rabuf::SmallRead::read_exact_maybeslice` (= `buf_file.read_exact_maybeslice`)
+    "read_exact_maybeslice": ("FileM.readBytes", ["int"], "bytes", None),
+    # `<vf>.seek(SeekFrom::Start(x))` / `SeekFrom::End(0)` / `SeekFrom::Current(n as i64)` are recognised
+    # by shape in EmitIO.mex
+}
+# methods of `<vf>.buf_file`
+IO_BUF_PRIMS = {
+    "write_zero": ("FileM.writeZero", ["int"], "unit", None),
+    "read_u8": ("FileM.readU8", [], "int", "u8"),
 }
 # statements `self.<m>(..)?;` that are left out, with the reason written to the doc comment
 IO_DROPPED_CALLS = {"prepare": "`self.prepare(..)?` (read-ahead hint of the buffer, no effect on the flat file)"}
 # unit-of-measure newtypes of semtype.rs: constructor path -> class; all are erased to `Nat`
-IO_NEWTYPES = {"PieceOffset": "Offset", "Offset": "Offset", "PieceSize": "Size", "KeyLength": "Length"}
+IO_NEWTYPES = {"PieceOffset": "Offset", "Offset": "Offset", "PieceSize": "Size", "KeyLength": "Length",
+               "ValuePieceOffset": "Offset", "KeyPieceOffset": "Offset", "ValuePieceSize": "Size",
+               "KeyPieceSize": "Size", "ValueLength": "Length"}
+IO_NEWTYPE_WIDTH = {"Offset": 64, "Size": 32, "Length": 32}
 IO_SIG_TYPES = {"PieceOffset<T>": "Offset", "Offset<T>": "Offset", "PieceSize<T>": "Size", "KeyLength": "Length",
-                "u32": "int", "u64": "int", "()": "unit"}
-IO_RESERVED = ("c", "fuel", "loopFuel", "loopRes", "loopRet")
+                "Length<T>": "Length", "ValueLength": "Length",
+                "ValuePieceOffset": "Offset", "KeyPieceOffset": "Offset",
+                "ValuePieceSize": "Size", "KeyPieceSize": "Size",
+                "u32": "int", "u64": "int", "()": "unit", "bool": "bool",
+                # byte sequences; a key `KT: DbMapKeyType` is its bytes (`as_bytes` / `from_bytes` / `clone` erased)
+                "Vec<u8>": "bytes", "&[u8]": "bytes", "rabuf::MaybeSlice": "bytes", "KT": "bytes", "&KT": "bytes",
+                "&mutVarFile": "vfile",
+                "ValuePiece": ("struct", "ValuePiece"), "KeyPiece<KT>": ("struct", "KeyPiece")}
+IO_RESERVED = ("c", "fuel", "loopFuel", "loopRes", "loopRet", "tryVal")
+# methods that are the identity on a byte sequence / key
+IO_BYTES_IDENTITY = ("as_bytes", "clone", "to_vec", "into_vec")
+
+# the piece structs: flattened into their fields.  `decl` is the exact text of the definition (token-wise),
+# `ctors` the exact text of the constructors that the translated functions use and what they mean
+# (field -> index of the parameter; a field that is not mentioned is `Default::default()` = 0),
+# `pure` the methods that are pure functions of Funcs.lean (arguments: field, or `field.len`).
+IO_STRUCTS = {
+    "ValuePiece": {
+        "file": IO_VAL, "impl": "impl ValuePiece",
+        "decl": "#[derive(Debug, Default, Clone)] pub struct ValuePiece { pub offset: ValuePieceOffset, "
+                "pub size: ValuePieceSize, pub value: Vec<u8>, }",
+        "fields": [("offset", "Offset"), ("size", "Size"), ("value", "bytes")],
+        "ctors": {
+            "with": ("fn with(offset: ValuePieceOffset, size: ValuePieceSize, value: Vec<u8>) -> Self "
+                     "{ Self { offset, size, value, } }", {"offset": 0, "size": 1, "value": 2}),
+            "with_value": ("fn with_value(value: &[u8]) -> Self { Self { value: value.to_vec(), ..Default::default() } }",
+                           {"value": 0}),
+        },
+        "pure": {"encoded_piece_size": ("valueEncodedPieceSize", ["value.len"],
+                                        ("tuple", ["int", "int", "Length"]), ["u32", "u32", None])},
+    },
+    "KeyPiece": {
+        "file": IO_KEY, "impl": "impl<KT: DbMapKeyType> KeyPiece<KT>",
+        "decl": "#[derive(Debug, Default, Clone)] pub struct KeyPiece<KT: DbMapKeyType> { pub offset: KeyPieceOffset, "
+                "pub size: KeyPieceSize, pub key: KT, pub value_offset: ValuePieceOffset, "
+                "pub bucket_next_offset: KeyPieceOffset, }",
+        "fields": [("offset", "Offset"), ("size", "Size"), ("key", "bytes"), ("value_offset", "Offset"),
+                   ("bucket_next_offset", "Offset")],
+        "ctors": {
+            "with": ("fn with(offset: KeyPieceOffset, size: KeyPieceSize, key: KT, value_offset: ValuePieceOffset, "
+                     "bucket_next_offset: KeyPieceOffset,) -> Self "
+                     "{ Self { offset, size, key, value_offset, bucket_next_offset, } }",
+                     {"offset": 0, "size": 1, "key": 2, "value_offset": 3, "bucket_next_offset": 4}),
+            "with_key_value_next": ("fn with_key_value_next(key: KT, value_offset: ValuePieceOffset, "
+                                    "bucket_next_offset: KeyPieceOffset,) -> Self "
+                                    "{ Self { key, value_offset, bucket_next_offset, ..Default::default() } }",
+                                    {"key": 0, "value_offset": 1, "bucket_next_offset": 2}),
+        },
+        "pure": {"encoded_piece_size": ("keyEncodedPieceSize", ["key.len", "value_offset", "bucket_next_offset"],
+                                        ("tuple", ["int", "int", "Length"]), ["u32", "u32", None])},
+    },
+}
+# owners of translated methods: name -> (`impl` header, text that denotes the VarFile inside, pinned definition)
+IO_OWNERS = {
+    "VarFile": ("impl VarFile", "self", None),
+    "ValuePiece": ("impl ValuePiece", None, None),
+    "KeyPiece": ("impl<KT: DbMapKeyType> KeyPiece<KT>", None, None),
+    "VarFileValueCache": ("impl VarFileValueCache", "self.0",
+                          (IO_VAL, r"struct\s+VarFileValueCache\s*\(\s*VarFile\s*,\s*PhantomData<i32>\s*\)\s*;")),
+    "VarFileKeyCache": ("impl<KT: DbMapKeyType> VarFileKeyCache<KT>", "self.0",
+                        (IO_KEY, r"pub\s+struct\s+VarFileKeyCache<KT:\s*DbMapKeyType>\s*\(\s*pub\s+VarFile\s*,"
+                                 r"\s*PhantomData<KT>\s*\)\s*;")),
+}
 
 
 def io_ident(v):
@@ -1460,12 +1563,14 @@ def io_ident(v):
 
 
 def io_lean_ty(t):
-    if t in ("Offset", "Size", "Length", "int"):
+    if t in NUMERIC:
         return "Nat"
     if t == "unit":
         return "Unit"
     if t == "bool":
         return "Bool"
+    if t == "bytes":
+        return "List Nat"
     if isinstance(t, tuple) and t[0] == "tuple":
         return " × ".join(io_lean_ty(x) if not isinstance(x, tuple) else "(" + io_lean_ty(x) + ")" for x in t[1])
     fail("imperative I/O subset: no Lean type for %r" % (t,))
@@ -1544,8 +1649,31 @@ def io_contains_return(node):
     return any(n[0] in ("return", "returnx") for n in io_walk(node))
 
 
+def io_mentions_var(node, v):
+    """is the Rust variable `v` referred to below `node`?"""
+    return any(n[0] == "path" and n[1] and n[1][0] == v for n in io_walk(node))
+
+
+def io_text(e):
+    k = e[0]
+    if k == "path":
+        return "::".join(e[1])
+    if k == "field":
+        return io_text(e[1]) + "." + e[2]
+    return "<%s>" % k
+
+
+def io_target(tgt, where):
+    """assignment target: a variable `v` or a field `v.f` of a flattened struct variable -> its key"""
+    if tgt[0] == "path" and len(tgt[1]) == 1:
+        return tgt[1][0]
+    if tgt[0] == "field" and tgt[1][0] == "path" and len(tgt[1][1]) == 1 and not tgt[2].isdigit():
+        return tgt[1][1][0] + "." + tgt[2]
+    fail("%s: unsupported assignment target" % where)
+
+
 def io_assigned(stmts, where):
-    """Rust names of the variables assigned in `stmts` and not declared inside (block-scoped)"""
+    """keys of the variables assigned in `stmts` and not declared inside (block-scoped)"""
     out = []
 
     def blk(sts, tail, decl):
@@ -1556,11 +1684,8 @@ def io_assigned(stmts, where):
                 ex(st[3], decl)
                 decl.update(pat_vars(st[1]))
             elif k == "assign":
-                tgt = st[2]
-                if not (tgt[0] == "path" and len(tgt[1]) == 1):
-                    fail("%s: unsupported assignment target" % where)
-                v = tgt[1][0]
-                if v not in decl and v not in out:
+                v = io_target(st[2], where)
+                if v.split(".")[0] not in decl and v not in out:
                     out.append(v)
                 ex(st[3], decl)
             elif k == "expr":
@@ -1571,7 +1696,7 @@ def io_assigned(stmts, where):
             elif k == "return":
                 if st[1] is not None:
                     ex(st[1], decl)
-            elif k in ("dassert", "panic"):
+            elif k in ("dassert", "panic", "assert"):
                 pass
             else:
                 fail("%s: statement `%s` is outside the imperative I/O subset" % (where, k))
@@ -1638,22 +1763,25 @@ def split_items(toks, lo, hi):
     return out
 
 
-def io_find_methods(repo, feats, relpath, type_name):
-    """the methods of the inherent blocks `impl <type_name> { … }` of a file whose `#[cfg]`
+def io_find_methods(repo, feats, relpath, header):
+    """the methods of the inherent blocks `<header> { … }` (header = `impl VarFile`,
+    `impl<KT: DbMapKeyType> KeyPiece<KT>`, matched token-wise) of a file whose `#[cfg]`
     attributes (of the block and of the method) hold for the default features:
     name -> list of (tokens from `fn` on, description of the block)"""
     src = strip_comments(open(os.path.join(repo, relpath)).read())
     toks = tokenize(src)
+    head = [v for _k, v in tokenize(header)]
+    n = len(head)
     found = {}
     for a, s, e in split_items(toks, 0, len(toks)):
-        if not (e - s >= 4 and toks[s][1] == "impl" and toks[s + 1][1] == type_name and toks[s + 2][1] == "{"):
+        if not (e - s >= n + 2 and [v for _k, v in toks[s:s + n]] == head and toks[s + n][1] == "{"):
             continue
-        where = "%s::<impl %s>" % (relpath, type_name)
+        where = "%s::<%s>" % (relpath, header)
         pa = P(toks[a:s], feats, where)
         if not pa.attrs():
             continue
-        blockdesc = "`impl %s`" % type_name + ((" (" + " ".join("`%s`" % c for c in pa.last_cfg) + ")") if pa.last_cfg else "")
-        for a2, s2, e2 in split_items(toks, s + 3, e - 1):
+        blockdesc = "`%s`" % header + ((" (" + " ".join("`%s`" % c for c in pa.last_cfg) + ")") if pa.last_cfg else "")
+        for a2, s2, e2 in split_items(toks, s + n + 1, e - 1):
             j = s2
             if toks[j][1] == "pub":
                 j += 1
@@ -1671,10 +1799,22 @@ def io_find_methods(repo, feats, relpath, type_name):
     return found
 
 
+def io_find_item_tokens(repo, relpath, lead):
+    """token texts (with the attributes) of the one top-level item that starts with the tokens `lead`"""
+    toks = tokenize(strip_comments(open(os.path.join(repo, relpath)).read()))
+    want = [v for _k, v in tokenize(lead)]
+    hits = [[v for _k, v in toks[a:e]] for a, s, e in split_items(toks, 0, len(toks))
+            if [v for _k, v in toks[s:s + len(want)]] == want]
+    if len(hits) != 1:
+        fail("%s: %d items `%s …` (exactly one expected)" % (relpath, len(hits), lead))
+    return hits[0]
+
+
 def io_parse_sig(toks, where):
-    """tokens `fn name <generics>? ( &mut self , a : T , … ) -> R {`: (params [(name, type text)],
-    return type text, index of the body `{`).  The generic parameter list (trait bounds on the
-    phantom type parameter) is skipped."""
+    """tokens `fn name <generics>? ( &mut self , a : T , … ) -> R {`: (receiver `&mut self` / `&self`,
+    params [(name, type text)], return type text, index of the body `{`).  The generic parameter
+    list (trait bounds on the phantom type parameter) is skipped; `mut` of a by-value parameter
+    is not part of its name."""
     i = 2
     if toks[i][1] == "<":
         depth = 0
@@ -1687,14 +1827,21 @@ def io_parse_sig(toks, where):
     if toks[i][1] != "(":
         fail("%s: cannot read the signature" % where)
     i += 1
-    if [t[1] for t in toks[i:i + 3]] != ["&", "mut", "self"]:
-        fail("%s: the receiver is not `&mut self`" % where)
-    i += 3
+    if [t[1] for t in toks[i:i + 3]] == ["&", "mut", "self"]:
+        recv = "&mut self"
+        i += 3
+    elif [t[1] for t in toks[i:i + 2]] == ["&", "self"]:
+        recv = "&self"
+        i += 2
+    else:
+        fail("%s: the receiver is not `&mut self` / `&self`" % where)
     params = []
     while toks[i][1] != ")":
         if toks[i][1] == ",":
             i += 1
             continue
+        if toks[i][1] == "mut":
+            i += 1
         name = toks[i][1]
         if toks[i][0] != "id" or toks[i + 1][1] != ":":
             fail("%s: unsupported parameter at `%s`" % (where, name))
@@ -1716,11 +1863,38 @@ def io_parse_sig(toks, where):
             fail("%s: `where` clause" % where)
         ret += toks[i][1]
         i += 1
-    return params, ret, i
+    return recv, params, ret, i
 
 
 class IoFn:
     pass
+
+
+class IoParam:
+    """a parameter of a translated function: a plain value (`lean` = its Lean name), the VarFile
+    (`cls == "vfile"`, no Lean parameter), or a piece struct flattened into `fields`
+    [(field, class, Lean name, is it an input)]"""
+    def __init__(self, rust, cls, lean=None, fields=None, width=None):
+        self.rust, self.cls, self.lean, self.fields, self.width = rust, cls, lean, fields, width
+
+    def lean_params(self):
+        if self.cls == "vfile":
+            return []
+        if self.fields is not None:
+            return [(ln, io_lean_ty(fc)) for _f, fc, ln, inp in self.fields if inp]
+        return [(self.lean, io_lean_ty(self.cls))]
+
+
+def io_group_params(ps):
+    """[(name, type)] -> `(a b : Nat) (v : List Nat)` (consecutive parameters of one type share a binder)"""
+    out, i = [], 0
+    while i < len(ps):
+        j = i
+        while j + 1 < len(ps) and ps[j + 1][1] == ps[i][1]:
+            j += 1
+        out.append("(%s : %s)" % (" ".join(p[0] for p in ps[i:j + 1]), ps[i][1]))
+        i = j + 1
+    return " ".join(out)
 
 
 class CtxFn:
@@ -1744,14 +1918,21 @@ class CtxFn:
 
 
 class CtxValue:
-    """`{ …; e }` used as a plain value (`let x = { … };`)"""
+    """`{ …; e }` used as a value (`let x = { … };`, a branch of `let x = if c { … } else { … };`);
+    the tail may be `call?` or a tuple with `call?` components"""
     def __init__(self, em):
         self.em = em
         self.ty = None
+        self.widths = None
 
     def tail(self, e):
-        t, self.ty = self.em.px(e)
-        return ["pure " + io_atom(t)]
+        if e[0] == "try":
+            lines, self.ty = self.em.mex(e[1])
+            if lines[0] == "do":
+                return [x[2:] for x in lines[1:]]
+            return lines
+        pre, t, self.ty = self.em.px_lift(e)
+        return pre + ["pure " + io_atom(t)]
 
     def fall(self):
         fail(self.em.where + ": a block used as a value ends without a value")
@@ -1805,40 +1986,70 @@ class CtxLoop:
 
 
 class EmitIO:
-    """translates the body of one `&mut self` method to the lines of a Lean `do` block"""
+    """translates the body of one method to the lines of a Lean `do` block"""
 
     def __init__(self, f, table):
         self.f = f
         self.where = f.where
-        self.table = table            # rust method name -> IoFn (translated before this one)
-        self.vt = {}                  # rust variable -> type class
+        self.table = table            # (owner, rust method name) -> IoFn (translated before this one)
+        self.vt = {}                  # rust variable (or `var.field` of a flattened struct) -> type class
         self.names = {}               # rust variable -> Lean name
         self.lean_used = {}           # Lean name -> rust variable (injectivity of the renaming)
         self.order = []               # rust variables in order of declaration
         self.facts = []               # (Lean text a, Lean text b): `a ≥ b` holds here (enclosing `if a > b`)
+        self.alias = {}               # immutable local -> the variable whose Lean name (and value) it shares
+        self.width = {}               # rust variable -> `u8`/`u32`/`u64`/`usize` where the source says so
+        self.pending = {}             # `var.field` that is not an input: (class, Lean name), declared by its first assignment
+        self.pristine = set()         # parameters (and input fields) that have not been assigned
         self.notes = []
         self.aux = []                 # auxiliary loop definitions (doc, text)
         self.in_loop = False
         self.nloops = 0
-        for (rn, ln, ty) in f.params:
-            self.declare(rn, ty, lean=ln)
+        self.vf_texts = set(f.vf_texts)
+        for p in f.params:
+            if p.cls == "vfile":
+                continue
+            if p.fields is not None:
+                self.vt[p.rust] = p.cls
+                for fld, fc, ln, inp in p.fields:
+                    key = p.rust + "." + fld
+                    if inp:
+                        self.declare(key, fc, lean=ln)
+                        self.pristine.add(key)
+                    else:
+                        self.pending[key] = (fc, ln)
+            else:
+                self.declare(p.rust, p.cls, lean=p.lean)
+                self.pristine.add(p.rust)
+                if p.width:
+                    self.width[p.rust] = p.width
 
     # ---- variables
-    def declare(self, v, ty, lean=None):
+    def declare(self, v, ty, lean=None, alias_of=None):
         if v == "_":
             return "_"
-        ln = lean or io_ident(v)
-        if ln in IO_RESERVED:
-            fail("%s: the variable `%s` would get the reserved Lean name `%s`" % (self.where, v, ln))
-        if self.lean_used.get(ln, v) != v:
-            fail("%s: the variables `%s` and `%s` would both be called `%s` in Lean"
-                 % (self.where, self.lean_used[ln], v, ln))
-        self.lean_used[ln] = v
+        for a, r in self.alias.items():
+            if r == v and a != v and a in self.vt:
+                fail("%s: `%s` is re-bound while `%s` still stands for its old value" % (self.where, v, a))
+        if alias_of is not None:
+            ln = self.names[alias_of]
+            self.alias[v] = self.alias.get(alias_of, alias_of)
+        else:
+            ln = lean or io_ident(v)
+            if ln in IO_RESERVED or re.match(r"^tryVal\d*$", ln):
+                fail("%s: the variable `%s` would get the reserved Lean name `%s`" % (self.where, v, ln))
+            if self.lean_used.get(ln, v) != v:
+                fail("%s: the variables `%s` and `%s` would both be called `%s` in Lean"
+                     % (self.where, self.lean_used[ln], v, ln))
+            self.lean_used[ln] = v
+            self.alias.pop(v, None)
         self.names[v] = ln
         self.vt[v] = ty
         if v in self.order:
             self.order.remove(v)
         self.order.append(v)
+        self.width.pop(v, None)
+        self.pristine.discard(v)
         self.forget(v)
         return ln
 
@@ -1848,48 +2059,181 @@ class EmitIO:
             self.facts = [f for f in self.facts if not (mentions(f[0], ln) or mentions(f[1], ln))]
 
     def snapshot(self):
-        return (dict(self.vt), dict(self.names), list(self.order), list(self.facts))
+        return (dict(self.vt), dict(self.names), list(self.order), list(self.facts), dict(self.alias),
+                dict(self.width), dict(self.pending), set(self.pristine))
 
     def restore(self, s, keep_assigned=()):
         """leave a block: its declarations end; facts about variables it assigned are dropped"""
         self.vt, self.names, self.order, facts = dict(s[0]), dict(s[1]), list(s[2]), list(s[3])
+        self.alias, self.width, self.pending, self.pristine = dict(s[4]), dict(s[5]), dict(s[6]), set(s[7])
         self.facts = facts
         for v in keep_assigned:
             self.forget(v)
+            self.pristine.discard(v)
+            self.width.pop(v, None)
 
-    def bind_pat(self, pat, ty):
+    def bind_pat(self, pat, ty, widths=None):
         if pat[0] == "pvar":
             if isinstance(ty, tuple) and pat[1] != "_":
                 fail("%s: a tuple bound to the single variable `%s`" % (self.where, pat[1]))
             if ty == "unit" and pat[1] != "_":
                 fail("%s: `()` bound to the variable `%s`" % (self.where, pat[1]))
-            return self.declare(pat[1], ty)
+            ln = self.declare(pat[1], ty)
+            if widths and pat[1] != "_":
+                self.width[pat[1]] = widths
+            return ln
         if not (isinstance(ty, tuple) and ty[0] == "tuple" and len(ty[1]) == len(pat[1])):
             fail("%s: tuple pattern against a value of type %r" % (self.where, ty))
-        return "(" + ", ".join(self.bind_pat(p, t) for p, t in zip(pat[1], ty[1])) + ")"
+        ws = widths if isinstance(widths, list) and len(widths) == len(pat[1]) else [None] * len(pat[1])
+        return "(" + ", ".join(self.bind_pat(p, t, w) for p, t, w in zip(pat[1], ty[1], ws)) + ")"
 
     def check_ret(self, ty):
+        if isinstance(ty, tuple) and ty[0] == "sres":
+            _s, name, rf, omitted = ty
+            if self.f.ret != ("struct", name) or list(rf) != list(self.f.ret_fields):
+                fail("%s: a `%s` with the fields (%s) is returned, the configuration says %r with (%s)"
+                     % (self.where, name, ", ".join(rf), self.f.ret, ", ".join(self.f.ret_fields or [])))
+            om = {}
+            for fld, root in omitted:
+                if root is None or root not in self.pristine:
+                    fail("%s: the field `%s` of the returned `%s` is not among the returned fields (%s) and is "
+                         "not an unchanged parameter of the function" % (self.where, fld, name, ", ".join(rf)))
+                om[fld] = root
+            if self.f.ret_omitted is not None and self.f.ret_omitted != om:
+                fail("%s: the fields of the returned `%s` that are left out come from different parameters "
+                     "at different `return`s" % (self.where, name))
+            self.f.ret_omitted = om
+            return
         if ty != self.f.ret:
             fail("%s: a value of class %r is returned, the signature says %r" % (self.where, ty, self.f.ret))
 
     def text(self, e):
-        k = e[0]
-        if k == "path":
-            return "::".join(e[1])
-        if k == "field":
-            return self.text(e[1]) + "." + e[2]
-        return "<%s>" % k
+        return io_text(e)
+
+    # ---- flattened structs
+    def field_key(self, e):
+        """`v.f` where `v` is a flattened struct variable -> the key `v.f`"""
+        if (e[0] == "field" and e[1][0] == "path" and len(e[1][1]) == 1
+                and isinstance(self.vt.get(e[1][1][0]), tuple) and self.vt[e[1][1][0]][0] == "struct"):
+            st = IO_STRUCTS[self.vt[e[1][1][0]][1]]
+            if e[2] not in [x[0] for x in st["fields"]]:
+                fail("%s: `%s` has no field `%s`" % (self.where, e[1][1][0], e[2]))
+            return e[1][1][0] + "." + e[2]
+        return None
+
+    def var_of(self, e):
+        """the variable an expression stands for: `v`, `v.f`, through `&` (dropped by the parser) and
+        the identities on byte sequences"""
+        while e[0] == "mcall" and e[2] in IO_BYTES_IDENTITY and not e[3]:
+            e = e[1]
+        if e[0] == "path" and len(e[1]) == 1 and e[1][0] in self.vt and not isinstance(self.vt[e[1][0]], tuple):
+            return e[1][0]
+        k = self.field_key(e)
+        if k is not None and k in self.vt:
+            return k
+        return None
+
+    def root_of(self, v):
+        return self.alias.get(v, v) if v is not None else None
+
+    def px_struct(self, e):
+        """a piece struct as a value: (struct name, {field: (Lean text, class, root variable or None)});
+        a field that has no value yet (not an input, not assigned) is missing"""
+        w = self.where
+        if e[0] == "path" and len(e[1]) == 1 and isinstance(self.vt.get(e[1][0]), tuple) and self.vt[e[1][0]][0] == "struct":
+            name = self.vt[e[1][0]][1]
+            out = {}
+            for fld, fc in IO_STRUCTS[name]["fields"]:
+                key = e[1][0] + "." + fld
+                if key in self.vt:
+                    out[fld] = (self.names[key], self.vt[key], self.root_of(key))
+            return name, out
+        if e[0] == "call" and len(e[1]) == 2 and e[1][0] in IO_STRUCTS and e[1][1] in IO_STRUCTS[e[1][0]]["ctors"]:
+            name = e[1][0]
+            _txt, how = IO_STRUCTS[name]["ctors"][e[1][1]]
+            if len(e[2]) != len(how):
+                fail("%s: %s::%s takes %d argument(s), %d given" % (w, name, e[1][1], len(how), len(e[2])))
+            out = {}
+            for fld, fc in IO_STRUCTS[name]["fields"]:
+                if fld in how:
+                    a = e[2][how[fld]]
+                    t, ty = self.px(a)
+                    if (ty in NUMERIC) != (fc in NUMERIC) or (fc not in NUMERIC and ty != fc):
+                        fail("%s: %s::%s: field `%s` of class %r gets a value of class %r" % (w, name, e[1][1], fld, fc, ty))
+                    out[fld] = (t, fc, self.root_of(self.var_of(a)))
+                else:
+                    out[fld] = ("0" if fc in NUMERIC else "[]", fc, None)     # `..Default::default()` (pinned)
+            return name, out
+        fail("%s: a piece struct is expected here (a struct variable or one of the pinned constructors)" % w)
+
+    def is_struct_expr(self, e):
+        if e[0] == "path" and len(e[1]) == 1:
+            t = self.vt.get(e[1][0])
+            return isinstance(t, tuple) and t[0] == "struct"
+        return e[0] == "call" and len(e[1]) == 2 and e[1][0] in IO_STRUCTS and e[1][1] in IO_STRUCTS[e[1][0]]["ctors"]
+
+    # ---- who is called
+    def resolve(self, recv, name):
+        """(`prim`, entry) | (`fn`, IoFn) | (`dropped`, note) | (`pure`, struct name) | None"""
+        rt = self.text(recv)
+        if rt in self.vf_texts:
+            if name in IO_DROPPED_CALLS:
+                return ("dropped", IO_DROPPED_CALLS[name])
+            if name in IO_PRIMS:
+                return ("prim", IO_PRIMS[name])
+            if name == "seek":
+                return ("seek", None)
+            if ("VarFile", name) in self.table:
+                return ("fn", self.table[("VarFile", name)])
+            return ("unknown-vf", None)
+        if recv[0] == "field" and recv[2] == "buf_file" and self.text(recv[1]) in self.vf_texts:
+            if name in IO_BUF_PRIMS:
+                return ("prim", IO_BUF_PRIMS[name])
+            return None
+        if rt == "self" and self.f.owner in ("VarFileValueCache", "VarFileKeyCache"):
+            if (self.f.owner, name) in self.table:
+                return ("fn", self.table[(self.f.owner, name)])
+            return ("unknown-self", None)
+        if recv[0] == "path" and len(recv[1]) == 1 and isinstance(self.vt.get(recv[1][0]), tuple) \
+                and self.vt[recv[1][0]][0] == "struct":
+            sn = self.vt[recv[1][0]][1]
+            if (sn, name) in self.table:
+                return ("fn", self.table[(sn, name)])
+            if name in IO_STRUCTS[sn]["pure"]:
+                return ("pure", sn)
+        return None
 
     # ---- pure expressions: (Lean text, type class)
+    def leaves_width(self, e):
+        """the common width of the variables of an arithmetic expression, None if one is unknown"""
+        if e[0] == "bin" and e[1] in ("+", "*"):
+            a, b = self.leaves_width(e[2]), self.leaves_width(e[3])
+            return a if a == b else None
+        if e[0] == "path" and len(e[1]) == 1:
+            return self.width.get(e[1][0])
+        return None
+
     def px(self, e):
         k = e[0]
         w = self.where
         if k == "num":
             return str(e[1]), "int"
         if k == "path":
+            if len(e[1]) == 1 and e[1][0] in ("true", "false") and e[1][0] not in self.vt:
+                return e[1][0], "bool"
             if len(e[1]) == 1 and e[1][0] in self.vt:
+                if isinstance(self.vt[e[1][0]], tuple) and self.vt[e[1][0]][0] == "struct":
+                    fail("%s: the piece struct `%s` is used where a plain value is expected" % (w, e[1][0]))
                 return self.names[e[1][0]], self.vt[e[1][0]]
             fail("%s: `%s` is not a local variable or parameter" % (w, "::".join(e[1])))
+        if k == "field":
+            key = self.field_key(e)
+            if key is not None:
+                if key in self.vt:
+                    return self.names[key], self.vt[key]
+                fail("%s: the field `%s` is read before it is assigned (it is configured as not being an input "
+                     "of the function)" % (w, key))
+            fail("%s: field access `%s` is outside the imperative I/O subset" % (w, self.text(e)))
         if k == "tuple":
             if not e[1]:
                 return "()", "unit"
@@ -1901,28 +2245,65 @@ class EmitIO:
                 t, ty = self.px(e[2][0])
                 if ty != "int":
                     fail("%s: %s::new(..) of something that is not a plain integer" % (w, p[0]))
-                return t, IO_NEWTYPES[p[0]]                      # newtype constructor erased
+                cls = IO_NEWTYPES[p[0]]
+                wd = IO_NEWTYPE_WIDTH[cls]
+                if e[2][0][0] == "bin" and self.leaves_width(e[2][0]) == "u%d" % wd:
+                    # `u32 + u32` as the argument of `new(val: u32)`: computed in `u32`, which wraps in a release build
+                    t = "(%s %% 2^%d)" % (t, wd)
+                return t, cls                                    # newtype constructor erased
+            if p == ["vu64", "decoded_len"] and len(e[2]) == 1:
+                t, ty = self.px(e[2][0])
+                if ty != "int":
+                    fail("%s: vu64::decoded_len(..) of something that is not a plain integer" % w)
+                return "(Abyss.Vu64.decodedLen %s)" % io_atom(t), "int"
+            if p == ["KT", "from_bytes"] and len(e[2]) == 1:
+                t, ty = self.px(e[2][0])
+                if ty != "bytes":
+                    fail("%s: KT::from_bytes(..) of something that is not a byte sequence" % w)
+                return t, "bytes"                                # a key is its bytes
             fail("%s: call of `%s` is outside the imperative I/O subset" % (w, "::".join(p)))
         if k == "mcall":
             recv, name, args = e[1], e[2], e[3]
-            if self.text(recv) == "self.piece_mgr" and name == "free_piece_list_offset_of_header" and len(args) == 1:
+            rt = self.text(recv)
+            pm = recv[0] == "field" and recv[2] == "piece_mgr" and self.text(recv[1]) in self.vf_texts
+            if pm and name == "free_piece_list_offset_of_header" and len(args) == 1:
                 t, ty = self.px(args[0])
                 if ty != "Size":
                     fail("%s: free_piece_list_offset_of_header(..) of something that is not a PieceSize" % w)
                 return "(freePieceListOffsetOfHeader c.freeOffsets c.sizeAry %s)" % io_atom(t), "int"
-            if name == "is_large_piece_size" and len(args) == 1 and self.text(args[0]) == "self.piece_mgr":
+            if pm and name == "roundup" and len(args) == 1:
+                t, ty = self.px(args[0])
+                if ty != "Size":
+                    fail("%s: roundup(..) of something that is not a PieceSize" % w)
+                return "(roundup c.sizeAry %s)" % io_atom(t), "Size"
+            if name == "is_large_piece_size" and len(args) == 1 and args[0][0] == "field" \
+                    and args[0][2] == "piece_mgr" and self.text(args[0][1]) in self.vf_texts:
                 t, ty = self.px(recv)
                 if ty != "Size":
                     fail("%s: .is_large_piece_size(..) on something that is not a PieceSize" % w)
                 return "(isLargePieceSize c.sizeAry %s)" % io_atom(t), "bool"
-            if any(n[0] == "path" and n[1] == ["self"] for n in io_walk(recv)):
-                fail("%s: `%s.%s(..)`: only `self.<method>(..)` of a translated function or bottom primitive, "
-                     "`self.buf_file.write_zero(..)`, `self.piece_mgr.free_piece_list_offset_of_header(..)` are supported, "
-                     "and a `Result` must be consumed by `?`, `let … = …?`, or the tail position"
-                     % (w, self.text(recv), name))
+            r = self.resolve(recv, name)
+            if r is not None and r[0] == "pure":
+                lean, argspec, rcls, _rw = IO_STRUCTS[r[1]]["pure"][name]
+                if args:
+                    fail("%s: %s.%s(..) takes no arguments" % (w, rt, name))
+                _n, sv = self.px_struct(recv)
+                out = lean
+                for a in argspec:
+                    fld = a.split(".")[0]
+                    if fld not in sv:
+                        fail("%s: %s.%s() reads the field `%s`, which has no value here" % (w, rt, name, fld))
+                    out += " " + (sv[fld][0] + ".length" if a.endswith(".len") else io_atom(sv[fld][0]))
+                return "(%s)" % out, rcls
+            if r is not None or (self.field_key(recv) is None and
+                                 any(n[0] == "path" and n[1] == ["self"] for n in io_walk(recv))):
+                fail("%s: `%s.%s(..)`: only methods of the VarFile that are translated functions or bottom primitives, "
+                     "`<vf>.buf_file.write_zero(..)`/`read_u8()`, `<vf>.piece_mgr.free_piece_list_offset_of_header(..)`/"
+                     "`roundup(..)` are supported, and a `Result` must be consumed by `?`, `let … = …?`, or the tail position"
+                     % (w, rt, name))
             if name in ("into", "as_value") and not args:
                 t, ty = self.px(recv)
-                if ty not in ("Offset", "Size", "Length", "int"):
+                if ty not in NUMERIC:
                     fail("%s: .%s() on a value of class %r" % (w, name, ty))
                 return t, "int"                                  # `From` between a newtype / integer and a wider integer
             if name == "is_zero" and not args:
@@ -1930,6 +2311,16 @@ class EmitIO:
                 if ty not in ("Offset", "Size", "Length"):
                     fail("%s: .is_zero() on a value of class %r" % (w, ty))
                 return "(%s == 0)" % t, "bool"
+            if name in IO_BYTES_IDENTITY and not args:
+                t, ty = self.px(recv)
+                if ty != "bytes":
+                    fail("%s: .%s() on a value of class %r (only on a byte sequence / key)" % (w, name, ty))
+                return t, "bytes"
+            if name == "len" and not args:
+                t, ty = self.px(recv)
+                if ty != "bytes":
+                    fail("%s: .len() on a value of class %r" % (w, ty))
+                return "%s.length" % io_atom(t), "int"
             fail("%s: method `.%s(..)` is outside the imperative I/O subset" % (w, name))
         if k == "not":
             t, ty = self.px(e[1])
@@ -1952,7 +2343,7 @@ class EmitIO:
                     fail("%s: `%s` on something that is not a condition" % (w, op))
                 return "(%s %s %s)" % (a, op, b), "bool"
             if op in ("<", ">", "<=", ">=", "==", "!="):
-                if ta != tb or ta not in ("Offset", "Size", "Length", "int"):
+                if ta != tb or ta not in NUMERIC:
                     fail("%s: comparison `%s` of values of classes %r and %r" % (w, op, ta, tb))
                 if op in ("==", "!="):
                     return "(%s %s %s)" % (a, op, b), "bool"
@@ -1975,8 +2366,29 @@ class EmitIO:
                 return "(%s %s %s)" % (a, op, b), "int"
             fail("%s: operator `%s` on values of classes %r and %r" % (w, op, ta, tb))
         if k == "try":
-            fail("%s: `?` inside an expression (supported: `let x = call?;`, `call?;`)" % w)
+            fail("%s: `?` inside an expression (supported: `let x = call?;`, `call?;`, `(call?, x)` as the value of a block)" % w)
         fail("%s: expression kind `%s` is outside the imperative I/O subset" % (w, k))
+
+    def px_lift(self, e):
+        """a value whose tuple components may be `call?`: (do-items that run the calls, Lean text, class)"""
+        if e[0] == "tuple" and any(x[0] == "try" for x in e[1]):
+            pre, xs = [], []
+            for x in e[1]:
+                if x[0] == "try":
+                    lines, ty = self.mex(x[1])
+                    if isinstance(ty, tuple) or ty == "unit":
+                        fail("%s: `call?` of class %r as a tuple component" % (self.where, ty))
+                    n = sum(1 for l in pre if l.startswith("let tryVal"))
+                    tv = "tryVal" + ("" if n == 0 else str(n + 1))
+                    pre += io_attach("let %s ← " % tv, lines)
+                    xs.append((tv, ty))
+                else:
+                    if any(n[0] == "try" for n in io_walk(x)):
+                        fail("%s: `?` nested inside a tuple component" % self.where)
+                    xs.append(self.px(x))
+            return pre, "(" + ", ".join(x[0] for x in xs) + ")", ("tuple", [x[1] for x in xs])
+        t, ty = self.px(e)
+        return [], t, ty
 
     def cond(self, e):
         t, ty = self.px(e)
@@ -1985,11 +2397,17 @@ class EmitIO:
         return t
 
     def cond_facts(self, c):
-        """`a ≥ b` facts that hold in the then-branch of `if c` (both sides plain variables)"""
-        if c[0] == "bin" and c[1] in (">", ">=", "<", "<=") and all(
-                x[0] == "path" and len(x[1]) == 1 and x[1][0] in self.vt for x in (c[2], c[3])):
-            a, b = self.names[c[2][1][0]], self.names[c[3][1][0]]
-            return [(a, b)] if c[1] in (">", ">=") else [(b, a)]
+        """`a ≥ b` facts that hold in the then-branch of `if c` (sides: plain variables or literals)"""
+        def side(x):
+            if x[0] == "path" and len(x[1]) == 1 and x[1][0] in self.vt and self.vt[x[1][0]] in NUMERIC:
+                return self.names[x[1][0]]
+            if x[0] == "num":
+                return str(x[1])
+            return None
+        if c[0] == "bin" and c[1] in (">", ">=", "<", "<="):
+            a, b = side(c[2]), side(c[3])
+            if a is not None and b is not None:
+                return [(a, b)] if c[1] in (">", ">=") else [(b, a)]
         return []
 
     # ---- monadic expressions (`Result`-typed): (lines of a Lean term, class of the value)
@@ -2000,30 +2418,76 @@ class EmitIO:
         if k == "mcall":
             if e[2] == "map":
                 return self.is_monadic(e[1])
-            r = self.text(e[1])
-            return (r == "self" and (e[2] in IO_PRIMS or e[2] in self.table or e[2] == "seek"
-                                     or e[2] in IO_DROPPED_CALLS)) or (r == "self.buf_file" and e[2] == "write_zero")
+            r = self.resolve(e[1], e[2])
+            return r is not None and r[0] in ("prim", "fn", "dropped", "seek")
         if k == "block":
             return e[2] is not None and self.is_monadic(e[2])
         if k == "if":
             return self.is_monadic(e[2]) or (e[3] is not None and self.is_monadic(e[3]))
         return False
 
-    def args(self, args, n, what):
-        if len(args) != n:
-            fail("%s: %s takes %d argument(s), %d given" % (self.where, what, n, len(args)))
+    def args(self, args, classes, what):
+        if len(args) != len(classes):
+            fail("%s: %s takes %d argument(s), %d given" % (self.where, what, len(classes), len(args)))
         out = ""
-        for a in args:
+        for a, cls in zip(args, classes):
             t, ty = self.px(a)
-            if ty not in ("Offset", "Size", "Length", "int"):
-                fail("%s: argument of class %r in the call of %s" % (self.where, ty, what))
+            if (cls in NUMERIC and ty not in NUMERIC) or (cls not in NUMERIC and ty != cls):
+                fail("%s: argument of class %r in the call of %s (%r expected)" % (self.where, ty, what, cls))
             out += " " + io_atom(t)
         return out
+
+    def call_fn(self, g, recv, args, what):
+        """call of a translated function: (Lean term, class of its value)"""
+        w = self.where
+        out = g.lean + (" c" if g.needs_c else "")
+        params = list(g.params)
+        passed = {}                    # key of a parameter of `g` -> root variable of the argument
+        def struct_arg(p, e):
+            nonlocal out
+            name, sv = self.px_struct(e)
+            if ("struct", name) != p.cls:
+                fail("%s: a `%s` is passed where %s expects %r" % (w, name, what, p.cls))
+            for fld, fc, _ln, inp in p.fields:
+                if inp:
+                    if fld not in sv:
+                        fail("%s: %s reads the field `%s` of its `%s`, which has no value here" % (w, what, fld, name))
+                    out += " " + io_atom(sv[fld][0])
+                    passed[p.rust + "." + fld] = sv[fld][2]
+        if g.recv_struct:
+            struct_arg(params[0], recv)
+            params = params[1:]
+        if len(args) != len(params):
+            fail("%s: %s takes %d argument(s), %d given" % (w, what, len(params), len(args)))
+        for p, a in zip(params, args):
+            if p.cls == "vfile":
+                if self.text(a) not in self.vf_texts:
+                    fail("%s: %s: the `&mut VarFile` argument is not the VarFile of this function" % (w, what))
+            elif p.fields is not None:
+                struct_arg(p, a)
+            else:
+                out += self.args([a], [p.cls], what)
+                passed[p.rust] = self.root_of(self.var_of(a))
+        ret = g.ret
+        if isinstance(ret, tuple) and ret[0] == "struct":
+            ret = ("sres", ret[1], tuple(g.ret_fields),
+                   tuple((fld, passed.get(pk)) for fld, pk in sorted(g.ret_omitted.items())))
+        return out, ret
 
     def mex(self, e):
         k = e[0]
         w = self.where
         if k == "call" and e[1] == ["Ok"] and len(e[2]) == 1:
+            if self.is_struct_expr(e[2][0]):
+                name, sv = self.px_struct(e[2][0])
+                rf = self.f.ret_fields or []
+                for fld in rf:
+                    if fld not in sv:
+                        fail("%s: the field `%s` of the returned `%s` has no value here" % (w, fld, name))
+                txt = "(" + ", ".join(sv[fld][0] for fld in rf) + ")" if len(rf) != 1 else sv[rf[0]][0]
+                omitted = tuple((fld, sv[fld][2] if fld in sv else None)
+                                for fld, _fc in IO_STRUCTS[name]["fields"] if fld not in rf)
+                return ["pure " + io_atom(txt)], ("sres", name, tuple(rf), omitted)
             t, ty = self.px(e[2][0])
             return ["pure " + io_atom(t)], ty
         if k == "mcall":
@@ -2049,21 +2513,37 @@ class EmitIO:
                         fail("%s: `.map(|..| ..)` on a compound expression" % w)
                     return ["do", "  let %s ← %s" % (v, lines[0]), "  pure %s" % io_atom(bt)], bty
                 fail("%s: unsupported argument of `.map(..)`" % w)
-            if rt == "self" and name == "seek":
-                if not (len(args) == 1 and args[0][0] == "call" and args[0][1] == ["SeekFrom", "Start"]):
-                    fail("%s: only `self.seek(SeekFrom::Start(..))` is supported" % w)
-                return ["FileM.seek" + self.args(args[0][2], 1, "SeekFrom::Start")], "int"
-            if rt == "self" and name in IO_PRIMS:
-                lean, n, ty = IO_PRIMS[name]
-                return [lean + self.args(args, n, "self.%s" % name)], ty
-            if rt == "self" and name in self.table:
-                g = self.table[name]
-                return [g.lean + (" c" if g.needs_c else "") + self.args(args, len(g.params), "self.%s" % name)], g.ret
-            if rt == "self.buf_file" and name == "write_zero":
-                return ["FileM.writeZero" + self.args(args, 1, "self.buf_file.write_zero")], "unit"
-            if rt == "self":
-                fail("%s: call of `self.%s(..)`: not one of the translated functions or bottom primitives" % (w, name))
+            r = self.resolve(recv, name)
+            if r is not None and r[0] == "seek":
+                a = args[0] if len(args) == 1 else None
+                if a is not None and a[0] == "call" and a[1] == ["SeekFrom", "Start"]:
+                    return ["FileM.seek" + self.args(a[2], ["int"], "SeekFrom::Start")], "int"
+                if a is not None and a[0] == "call" and a[1] == ["SeekFrom", "End"] and a[2] == [("num", 0)]:
+                    return ["FileM.seekEnd"], "int"
+                if (a is not None and a[0] == "call" and a[1] == ["SeekFrom", "Current"] and len(a[2]) == 1
+                        and a[2][0][0] == "cast" and a[2][0][2] == "i64" and a[2][0][1][0] == "path"
+                        and len(a[2][0][1][1]) == 1 and self.width.get(a[2][0][1][1][0]) in ("u8", "u16", "u32")):
+                    # a `u32` widened to `i64` is not negative: a forward seek
+                    return ["FileM.seekCur" + self.args([a[2][0][1]], ["int"], "SeekFrom::Current")], "int"
+                fail("%s: only `seek(SeekFrom::Start(x))`, `seek(SeekFrom::End(0))`, `seek(SeekFrom::Current(n as i64))` "
+                     "with `n: u32` are supported" % w)
+            if r is not None and r[0] == "prim":
+                lean, classes, ty, _wd = r[1]
+                return [lean + self.args(args, classes, "%s.%s" % (rt, name))], ty
+            if r is not None and r[0] == "fn":
+                t, ty = self.call_fn(r[1], recv, args, "%s.%s" % (rt, name))
+                return [t], ty
+            if r is not None and r[0] in ("unknown-vf", "unknown-self"):
+                fail("%s: call of `%s.%s(..)`: not one of the translated functions or bottom primitives" % (w, rt, name))
         fail("%s: unsupported expression where a `Result` is expected (kind `%s`)" % (w, k))
+
+    def mex_width(self, e):
+        """width of the value of a bottom primitive, where it is known"""
+        if e[0] == "mcall":
+            r = self.resolve(e[1], e[2])
+            if r is not None and r[0] == "prim":
+                return r[1][3]
+        return None
 
     def scoped(self, stmts, tail, ctx, facts=()):
         snap = self.snapshot()
@@ -2089,6 +2569,35 @@ class EmitIO:
             return [x[2:] for x in lines[1:]]      # `do` block as the last item of a do block: spliced
         return lines
 
+    def value_if(self, e):
+        """`if c { …; v } else { …; v' }` as a value: (lines of the monadic term, class, widths)"""
+        w = self.where
+        if e[3] is None or e[3][0] != "block":
+            fail(w + ": `if` as a value needs `else { … }`")
+        c = self.cond(e[1])
+        ca, cb = CtxValue(self), CtxValue(self)
+        a = self.scoped(e[2][1], e[2][2], ca, self.cond_facts(e[1]))
+        b = self.scoped(e[3][1], e[3][2], cb)
+        if ca.ty != cb.ty:
+            fail("%s: the branches of an `if` used as a value have the classes %r and %r" % (w, ca.ty, cb.ty))
+        return ["if %s then do" % c] + ind(a) + ["else do"] + ind(b), ca.ty
+
+    def is_recovery_match(self, e):
+        """exactly `match <call> { Ok(()) => (), Err(err) => { let _ = <vf>.set_file_length(x); return Err(err); } }`"""
+        if e[0] != "match" or len(e[2]) != 2:
+            return False
+        (p1, b1, body1), (p2, b2, body2) = e[2]
+        if not (p1 == ["Ok"] and b1 == "()" and body1 == ("tuple", [])):
+            return False
+        if not (p2 == ["Err"] and b2 == "err" and body2[0] == "block" and body2[2] is None and len(body2[1]) == 2):
+            return False
+        s1, s2 = body2[1]
+        if not (s1[0] == "let" and s1[1] == ("pvar", "_") and s1[2] is None and s1[3][0] == "mcall"
+                and self.text(s1[3][1]) in self.vf_texts and s1[3][2] == "set_file_length" and len(s1[3][3]) == 1
+                and s1[3][3][0][0] == "path"):
+            return False
+        return s2 == ("return", ("call", ["Err"], [("path", ["err"])]))
+
     # ---- statements
     def seq(self, stmts, tail, ctx):
         """statement list + tail -> the items of a Lean `do` block"""
@@ -2100,6 +2609,11 @@ class EmitIO:
         if k == "dassert":
             self.notes.append("`%s(..)`" % st[1])
             return self.seq(rest, tail, ctx)
+        if k == "assert":
+            # `assert!(c)`: a panic is a failure of the monad
+            t = self.cond(st[1])
+            neg = t[2:-1] if (t.startswith("(!") and t.endswith(")") and io_atom(t[2:-1]) == t[2:-1]) else "(!%s)" % t
+            return ["(if %s then FileM.fail else pure ())" % neg] + self.seq(rest, tail, ctx)
         if k == "return":
             if rest or tail is not None:
                 fail(w + ": statements after `return`")
@@ -2109,11 +2623,17 @@ class EmitIO:
             ann = None
             if ty is not None:
                 ann = io_sig_type(ty, w)
-            if e[0] == "try":
-                lines, vty = self.mex(e[1])
+            annw = ty if ty in WIDTH else None
+
+            def check_ann(vty):
                 if ann is not None and ann != vty:
                     fail("%s: `let %s: %s` bound to a value of class %r" % (w, " ".join(pat_vars(pat)), ty, vty))
-                return io_attach("let %s ← " % self.bind_pat(pat, vty), lines) + self.seq(rest, tail, ctx)
+            if e[0] == "try":
+                lines, vty = self.mex(e[1])
+                check_ann(vty)
+                if isinstance(vty, tuple) and vty[0] == "sres":
+                    fail("%s: a piece struct returned by a call is bound to a variable" % w)
+                return io_attach("let %s ← " % self.bind_pat(pat, vty, annw or self.mex_width(e[1])), lines) + self.seq(rest, tail, ctx)
             if self.is_monadic(e):
                 # `let r = <Result>; r`: the call is the value of the function
                 if not (not rest and pat[0] == "pvar" and tail == ("path", [pat[1]])):
@@ -2122,22 +2642,65 @@ class EmitIO:
             if e[0] == "block":
                 cv = CtxValue(self)
                 lines = ["do"] + ind(self.scoped(e[1], e[2], cv))
-                if ann is not None and ann != cv.ty:
-                    fail("%s: `let %s: %s` bound to a value of class %r" % (w, " ".join(pat_vars(pat)), ty, cv.ty))
-                return io_attach("let %s ← " % self.bind_pat(pat, cv.ty), lines) + self.seq(rest, tail, ctx)
+                check_ann(cv.ty)
+                return io_attach("let %s ← " % self.bind_pat(pat, cv.ty, annw), lines) + self.seq(rest, tail, ctx)
+            if e[0] == "if":
+                lines, vty = self.value_if(e)
+                check_ann(vty)
+                return io_attach("let %s ← " % self.bind_pat(pat, vty, annw), lines) + self.seq(rest, tail, ctx)
+            if self.is_struct_expr(e):
+                # `let piece = Struct::with(a, b, c);`: the fields stand for the variables given
+                if _mut or pat[0] != "pvar" or e[0] != "call" or ty is not None:
+                    fail("%s: only `let v = <pinned constructor>(variables);` (not `mut`) binds a piece struct" % w)
+                name, sv = self.px_struct(e)
+                v = pat[1]
+                if v in self.vt:
+                    fail("%s: the piece struct `%s` hides a variable" % (w, v))
+                self.vt[v] = ("struct", name)
+                for fld, fc in IO_STRUCTS[name]["fields"]:
+                    t, _fc, root = sv[fld]
+                    if root is None or self.names.get(root) != t:
+                        fail("%s: the argument for the field `%s` of `let %s = %s::…` is not a plain variable" % (w, fld, v, name))
+                    self.declare(v + "." + fld, fc, alias_of=root)
+                return self.seq(rest, tail, ctx)
+            if pat[0] == "pvar" and not _mut and pat[1] != "_":
+                r = self.var_of(e)
+                if r is not None and self.names[r] == io_ident(pat[1]) and r != pat[1]:
+                    # `let value = &self.value;`: the same value under the same Lean name, nothing to emit
+                    t, vty = self.px(e)
+                    check_ann(vty)
+                    self.declare(pat[1], vty, alias_of=r)
+                    return self.seq(rest, tail, ctx)
             t, vty = self.px(e)
-            if ann is not None and ann != vty:
-                fail("%s: `let %s: %s` bound to a value of class %r" % (w, " ".join(pat_vars(pat)), ty, vty))
-            return ["let %s := %s" % (self.bind_pat(pat, vty), t)] + self.seq(rest, tail, ctx)
+            check_ann(vty)
+            widths = annw
+            if e[0] == "mcall":
+                r = self.resolve(e[1], e[2])
+                if r is not None and r[0] == "pure":
+                    widths = IO_STRUCTS[r[1]]["pure"][e[2]][3]
+            return ["let %s := %s" % (self.bind_pat(pat, vty, widths), t)] + self.seq(rest, tail, ctx)
         if k == "assign":
             _, op, lhs, rhs = st
-            if not (lhs[0] == "path" and len(lhs[1]) == 1 and lhs[1][0] in self.vt):
+            v = io_target(lhs, w)
+            if v in self.pending and v not in self.vt and op == "=" and isinstance(self.vt.get(v.split(".")[0]), tuple):
+                fc, ln = self.pending[v]
+                t, vty = self.px(rhs)
+                if vty != fc:
+                    fail("%s: `%s` of class %r is assigned a value of class %r" % (w, v, fc, vty))
+                return ["let %s := %s" % (self.declare(v, fc, lean=ln), t)] + self.seq(rest, tail, ctx)
+            if v not in self.vt or isinstance(self.vt[v], tuple):
                 fail("%s: unsupported assignment target" % w)
-            v = lhs[1][0]
+            if v in self.alias:
+                fail("%s: assignment to `%s`, which stands for `%s`" % (w, v, self.alias[v]))
+            for a, r in self.alias.items():
+                if r == v and a in self.vt:
+                    fail("%s: `%s` is assigned while `%s` still stands for its old value" % (w, v, a))
             t, vty = self.px(rhs if op == "=" else ("bin", op[:-1], lhs, rhs))
             if vty != self.vt[v]:
                 fail("%s: `%s` of class %r is assigned a value of class %r" % (w, v, self.vt[v], vty))
             self.forget(v)
+            self.pristine.discard(v)
+            self.width.pop(v, None)
             return ["let %s := %s" % (self.names[v], t)] + self.seq(rest, tail, ctx)
         if k == "while":
             return self.while_(st, rest, tail, ctx)
@@ -2145,11 +2708,26 @@ class EmitIO:
             e = st[1]
             if e[0] == "try":
                 inner = e[1]
-                if (inner[0] == "mcall" and self.text(inner[1]) == "self" and inner[2] in IO_DROPPED_CALLS):
-                    self.notes.append(IO_DROPPED_CALLS[inner[2]])
-                    return self.seq(rest, tail, ctx)
+                if inner[0] == "mcall":
+                    r = self.resolve(inner[1], inner[2])
+                    if r is not None and r[0] == "dropped":
+                        self.notes.append(r[1])
+                        return self.seq(rest, tail, ctx)
                 lines, vty = self.mex(inner)
                 return io_attach("" if vty == "unit" else "let _ ← ", lines) + self.seq(rest, tail, ctx)
+            if e[0] == "match":
+                if not self.is_recovery_match(e):
+                    fail("%s: `match` is only supported as `match <call> { Ok(()) => (), Err(err) => { let _ = "
+                         "<vf>.set_file_length(x); return Err(err); } }`" % w)
+                lines, vty = self.mex(e[1])
+                if vty != "unit":
+                    fail("%s: the call under the error-recovery `match` has a value of class %r" % (w, vty))
+                s1 = e[2][1][2][1][0]
+                self.notes.append("the error-recovery arm `Err(err) => { let _ = %s.set_file_length(%s); return Err(err); }` "
+                                  "of the `match` around the call of `%s` (in the monad a failure is a failure; the recovery "
+                                  "only matters for I/O errors, which the flat file does not have)"
+                                  % (self.text(s1[3][1]), self.text(s1[3][3][0]), e[1][2]))
+                return lines + self.seq(rest, tail, ctx)
             if self.is_monadic(e):
                 fail("%s: a `Result` is computed and ignored" % w)
             if e[0] == "block":
@@ -2157,32 +2735,43 @@ class EmitIO:
                 # variable that is used after the block
                 if e[2] is not None:
                     fail(w + ": nested block with a value in statement position")
-                for s2 in e[1]:
-                    if s2[0] == "let":
-                        for v in pat_vars(s2[1]):
-                            if v in self.vt:
-                                fail("%s: the block-local `%s` shadows an outer variable" % (w, v))
+                self.check_splice(e[1], rest, tail)
                 return self.seq(list(e[1]) + list(rest), tail, ctx)
             if e[0] == "if":
                 return self.if_stmt(e, rest, tail, ctx)
             fail("%s: unsupported expression statement (kind `%s`)" % (w, e[0]))
         fail("%s: statement `%s` is outside the imperative I/O subset" % (w, k))
 
+    def check_splice(self, stmts, rest, tail):
+        """the statements of a block are continued by `rest`/`tail` in one Lean scope: a local of the
+        block must not be visible to what follows"""
+        for s2 in stmts:
+            if s2[0] == "let":
+                for v in pat_vars(s2[1]):
+                    if v != "_" and (io_mentions_var(list(rest), v) or (tail is not None and io_mentions_var(tail, v))):
+                        fail("%s: the block-local `%s` would be visible to the code after its block" % (self.where, v))
+
     def if_stmt(self, e, rest, tail, ctx):
         w = self.where
         c, then, els = e[1], e[2], e[3]
         if then[2] is not None or (els is not None and (els[0] != "block" or els[2] is not None)):
             fail(w + ": `if` in statement position whose branches have values / `else if`")
-        if then[1] and then[1][-1][0] == "return":
-            # `if c { …; return Ok(x); }  rest`  ->  if c then (… x) else (rest)
-            if els is not None:
-                fail(w + ": `if c { …return… } else { … }` in statement position")
-            cc = self.cond(c)
-            a = self.scoped(then[1], None, ctx, self.cond_facts(c))
-            b = self.seq(rest, tail, ctx)
-            return ["if %s then" % cc] + ind(a) + ["else"] + ind(b)
         if io_contains_return(then) or (els is not None and io_contains_return(els)):
-            fail(w + ": `return` inside a conditional that is not the last statement of its block")
+            # a branch returns: the code after the `if` is the continuation of every branch that does not
+            #   `if c { …; return Ok(x); } rest`            ->  if c then (… x) else (rest)
+            #   `if c { A } else { B } rest`, returns inside  ->  if c then (A; rest) else (B; rest)
+            if self.in_loop and not (els is None and then[1] and then[1][-1][0] == "return"):
+                fail(w + ": `return` inside a conditional that is not the last statement of its block")
+            cc = self.cond(c)
+
+            def branch(stmts, facts):
+                if stmts and stmts[-1][0] == "return":
+                    return self.scoped(stmts, None, ctx, facts)
+                self.check_splice(stmts, rest, tail)
+                return self.scoped(list(stmts) + list(rest), tail, ctx, facts)
+            a = branch(then[1], self.cond_facts(c))
+            b = branch(els[1] if els is not None else [], [])
+            return ["if %s then" % cc] + ind(a) + ["else"] + ind(b)
         body = list(then[1]) + (list(els[1]) if els is not None else [])
         vs = [v for v in self.order if v in io_assigned(body, w)]
         for v in io_assigned(body, w):
@@ -2212,7 +2801,7 @@ class EmitIO:
         for v in asg:
             if v not in self.vt:
                 fail("%s: assignment to the unknown variable `%s`" % (w, v))
-            if self.vt[v] not in ("Offset", "Size", "Length", "int"):
+            if self.vt[v] not in NUMERIC:
                 fail("%s: loop variable `%s` of class %r" % (w, v, self.vt[v]))
         vs = [v for v in self.order if v in asg]
         if not vs:
@@ -2224,9 +2813,9 @@ class EmitIO:
         used = set(n[1][0] for n in io_walk((c, body)) if n[0] == "path" and len(n[1]) == 1)
         extra = [v for v in self.order if v in used and v not in vs]
         for v in extra:
-            if self.vt[v] not in ("Offset", "Size", "Length", "int"):
+            if self.vt[v] not in NUMERIC:
                 fail("%s: variable `%s` of class %r used inside a loop" % (w, v, self.vt[v]))
-        uses_c = io_uses_c((c, body), self.table)
+        uses_c = io_uses_c((c, body), self.f, self.table)
         self.nloops += 1
         name = self.f.lean + "Loop" + ("" if self.nloops == 1 else str(self.nloops))
         state = self.names[vs[0]] if len(vs) == 1 else "(" + ", ".join(self.names[v] for v in vs) + ")"
@@ -2268,56 +2857,138 @@ class EmitIO:
             "| .inr %s =>" % state] + ind(self.seq(rest, tail, ctx))
 
 
-def io_uses_c(node, table):
+def io_callee_key(f, n):
+    """the (owner, method) a method call of the body of `f` refers to, if it can be a translated function"""
+    rt = io_text(n[1])
+    if rt in f.vf_texts:
+        return ("VarFile", n[2])
+    if rt == "self" and f.owner in ("VarFileValueCache", "VarFileKeyCache"):
+        return (f.owner, n[2])
+    if n[1][0] == "path" and len(n[1][1]) == 1 and n[1][1][0] in f.struct_params:
+        return (f.struct_params[n[1][1][0]], n[2])
+    return None
+
+
+def io_uses_c(node, f, table):
     """does the code refer to the piece manager (the parameter `c : FileCfg`), directly or through a callee?"""
     for n in io_walk(node):
         if n[0] == "field" and n[2] == "piece_mgr":
             return True
-        if n[0] == "mcall" and n[1] == ("path", ["self"]) and n[2] in table and table[n[2]].needs_c:
-            return True
+        if n[0] == "mcall":
+            k = io_callee_key(f, n)
+            if k in table and table[k].needs_c:
+                return True
     return False
 
 
-# the functions of FileOps.lean: (rust name, file, Lean name, signature without the generic
-# parameter list, Lean names of the parameters, expected Lean signature)
+VFO, VPO, VCO, KPO, KCO = "VarFile", "ValuePiece", "VarFileValueCache", "KeyPiece", "VarFileKeyCache"
+_VP = {"offset": "off", "size": "size", "value": "value"}
+_KP = {"offset": "off", "size": "size", "key": "key", "value_offset": "valueOffset",
+       "bucket_next_offset": "bucketNextOffset"}
+# `-name`: the field is not an input of the function (it is assigned before it is read; checked)
+_VP_W = dict(_VP, size="-size")
+_KP_W = dict(_KP, size="-size")
+
+# the functions of FileOps.lean: (owner, rust name, file, Lean name, signature without the generic
+# parameter list, Lean names of the parameters [a piece struct: {field: Lean name}; the `&self` of a
+# piece struct comes first; `None` for the `&mut VarFile`], expected Lean signature,
+# fields of a returned piece struct that make up the Lean value)
 IO_FUNCS = [
-    ("seek_from_start", IO_VF, "seekFromStart", "(&mut self, offset: Offset<T>) -> Result<Offset<T>>",
+    (VFO, "seek_from_start", IO_VF, "seekFromStart", "(&mut self, offset: Offset<T>) -> Result<Offset<T>>",
      ["off"], "(off : Nat) : M Nat"),
-    ("seek_position", IO_VF, "seekPosition", "(&mut self) -> Result<Offset<T>>", [], ": M Nat"),
-    ("write_zero_to_offset", IO_VF, "writeZeroToOffset", "(&mut self, offset: Offset<T>) -> Result<()>",
+    (VFO, "seek_position", IO_VF, "seekPosition", "(&mut self) -> Result<Offset<T>>", [], ": M Nat"),
+    (VFO, "write_zero_to_offset", IO_VF, "writeZeroToOffset", "(&mut self, offset: Offset<T>) -> Result<()>",
      ["off"], "(off : Nat) : M Unit"),
-    ("read_vu64_u32", IO_VF, "readVu64U32", "(&mut self) -> Result<u32>", [], ": M Nat"),
-    ("write_vu64_u32", IO_VF, "writeVu64U32", "(&mut self, value: u32) -> Result<()>", ["value"], "(value : Nat) : M Unit"),
-    ("_read_vu64_u64", IO_VF, "readVu64U64", "(&mut self) -> Result<u64>", [], ": M Nat"),
-    ("_write_vu64_u64", IO_VF, "writeVu64U64", "(&mut self, value: u64) -> Result<()>", ["value"], "(value : Nat) : M Unit"),
-    ("read_free_piece_offset", IO_VF, "readFreePieceOffset", "(&mut self) -> Result<Offset<T>>", [], ": M Nat"),
-    ("write_free_piece_offset", IO_VF, "writeFreePieceOffset", "(&mut self, offset: Offset<T>) -> Result<()>",
+    (VFO, "read_vu64_u32", IO_VF, "readVu64U32", "(&mut self) -> Result<u32>", [], ": M Nat"),
+    (VFO, "write_vu64_u32", IO_VF, "writeVu64U32", "(&mut self, value: u32) -> Result<()>", ["value"], "(value : Nat) : M Unit"),
+    (VFO, "_read_vu64_u64", IO_VF, "readVu64U64", "(&mut self) -> Result<u64>", [], ": M Nat"),
+    (VFO, "_write_vu64_u64", IO_VF, "writeVu64U64", "(&mut self, value: u64) -> Result<()>", ["value"], "(value : Nat) : M Unit"),
+    (VFO, "read_free_piece_offset", IO_VF, "readFreePieceOffset", "(&mut self) -> Result<Offset<T>>", [], ": M Nat"),
+    (VFO, "write_free_piece_offset", IO_VF, "writeFreePieceOffset", "(&mut self, offset: Offset<T>) -> Result<()>",
      ["off"], "(off : Nat) : M Unit"),
-    ("read_piece_size", IO_VF, "readPieceSize", "(&mut self) -> Result<PieceSize<T>>", [], ": M Nat"),
-    ("write_piece_size", IO_VF, "writePieceSize", "(&mut self, piece_size: PieceSize<T>) -> Result<()>",
+    (VFO, "read_piece_size", IO_VF, "readPieceSize", "(&mut self) -> Result<PieceSize<T>>", [], ": M Nat"),
+    (VFO, "write_piece_size", IO_VF, "writePieceSize", "(&mut self, piece_size: PieceSize<T>) -> Result<()>",
      ["size"], "(size : Nat) : M Unit"),
-    ("read_key_len", IO_VF, "readKeyLen", "(&mut self) -> Result<KeyLength>", [], ": M Nat"),
-    ("write_key_len", IO_VF, "writeKeyLen", "(&mut self, key_len: KeyLength) -> Result<()>", ["len"], "(len : Nat) : M Unit"),
-    ("write_piece_clear", IO_VF, "writePieceClear",
+    (VFO, "read_key_len", IO_VF, "readKeyLen", "(&mut self) -> Result<KeyLength>", [], ": M Nat"),
+    (VFO, "write_key_len", IO_VF, "writeKeyLen", "(&mut self, key_len: KeyLength) -> Result<()>", ["len"], "(len : Nat) : M Unit"),
+    (VFO, "write_piece_clear", IO_VF, "writePieceClear",
      "(&mut self, offset: PieceOffset<T>, size: PieceSize<T>) -> Result<()>", ["off", "size"], "(off size : Nat) : M Unit"),
-    ("read_free_piece_offset_on_header", IO_PI, "readFreePieceOffsetOnHeader",
+    (VFO, "read_free_piece_offset_on_header", IO_PI, "readFreePieceOffsetOnHeader",
      "(&mut self, piece_size: PieceSize<T>) -> Result<PieceOffset<T>>", ["pieceSize"], "(c : FileCfg) (pieceSize : Nat) : M Nat"),
-    ("write_free_piece_offset_on_header", IO_PI, "writeFreePieceOffsetOnHeader",
+    (VFO, "write_free_piece_offset_on_header", IO_PI, "writeFreePieceOffsetOnHeader",
      "(&mut self, piece_size: PieceSize<T>, offset: PieceOffset<T>) -> Result<()>", ["pieceSize", "off"],
      "(c : FileCfg) (pieceSize off : Nat) : M Unit"),
-    ("read_free_piece_size_next", IO_PI, "readFreePieceSizeNext",
+    (VFO, "read_free_piece_size_next", IO_PI, "readFreePieceSizeNext",
      "(&mut self, curr_free_piece: PieceOffset<T>) -> Result<(PieceSize<T>, PieceOffset<T>)>", ["off"],
      "(off : Nat) : M (Nat × Nat)"),
-    ("count_of_free_piece_list", IO_PI, "countOfFreePieceList",
+    (VFO, "count_of_free_piece_list", IO_PI, "countOfFreePieceList",
      "(&mut self, new_piece_size: PieceSize<T>) -> Result<u64>", ["pieceSize"], "(c : FileCfg) (pieceSize : Nat) : M Nat"),
-    ("push_free_piece_list", IO_PI, "pushFreePieceList",
+    (VFO, "push_free_piece_list", IO_PI, "pushFreePieceList",
      "(&mut self, old_piece_offset: PieceOffset<T>, old_piece_size: PieceSize<T>) -> Result<()>", ["off", "size"],
      "(c : FileCfg) (off size : Nat) : M Unit"),
-    ("pop_free_piece_list_large", IO_PI, "popFreePieceListLarge",
+    (VFO, "pop_free_piece_list_large", IO_PI, "popFreePieceListLarge",
      "(&mut self, new_piece_size: PieceSize<T>, free_1st: PieceOffset<T>) -> Result<PieceOffset<T>>",
      ["size", "free1st"], "(c : FileCfg) (size free1st : Nat) : M Nat"),
-    ("pop_free_piece_list", IO_PI, "popFreePieceList",
+    (VFO, "pop_free_piece_list", IO_PI, "popFreePieceList",
      "(&mut self, new_piece_size: PieceSize<T>) -> Result<PieceOffset<T>>", ["size"], "(c : FileCfg) (size : Nat) : M Nat"),
+    # ---- vfile.rs, second batch (used by key.rs / val.rs)
+    (VFO, "seek_skip_length", IO_VF, "seekSkipLength", "(&mut self, length: Length<T>,) -> Result<Offset<T>>",
+     ["len"], "(len : Nat) : M Nat"),
+    (VFO, "seek_to_end", IO_VF, "seekToEnd", "(&mut self) -> Result<Offset<T>>", [], ": M Nat"),
+    (VFO, "read_piece_offset", IO_VF, "readPieceOffset", "(&mut self) -> Result<PieceOffset<T>>", [], ": M Nat"),
+    (VFO, "write_piece_offset", IO_VF, "writePieceOffset", "(&mut self, piece_offset: PieceOffset<T>) -> Result<()>",
+     ["off"], "(off : Nat) : M Unit"),
+    (VFO, "read_value_len", IO_VF, "readValueLen", "(&mut self) -> Result<ValueLength>", [], ": M Nat"),
+    (VFO, "write_value_len", IO_VF, "writeValueLen", "(&mut self, value_len: ValueLength) -> Result<()>",
+     ["len"], "(len : Nat) : M Unit"),
+    (VFO, "seek_skip_to_piece_key", IO_VF, "seekSkipToPieceKey",
+     "(&mut self, offset: PieceOffset<T>,) -> Result<PieceOffset<T>>", ["off"], "(off : Nat) : M Nat"),
+    (VFO, "seek_skip_to_piece_value", IO_VF, "seekSkipToPieceValue",
+     "(&mut self, offset: PieceOffset<T>,) -> Result<PieceOffset<T>>", ["off"], "(off : Nat) : M Nat"),
+    # ---- value file (val.rs)
+    (VPO, "dat_write_piece_one", IO_VAL, "valDatWritePieceOne", "(&self, file: &mut VarFile) -> Result<()>",
+     [_VP, None], "(off size : Nat) (value : List Nat) : M Unit"),
+    (VCO, "delete_piece", IO_VAL, "valDeletePiece", "(&mut self, offset: ValuePieceOffset) -> Result<ValuePieceSize>",
+     ["off"], "(c : FileCfg) (off : Nat) : M Nat"),
+    (VCO, "write_piece", IO_VAL, "valWritePiece", "(&mut self, mut piece: ValuePiece, is_new: bool) -> Result<ValuePiece>",
+     [_VP_W, "isNew"], "(c : FileCfg) (off : Nat) (value : List Nat) (isNew : Bool) : M (Nat × Nat)", ["offset", "size"]),
+    (VCO, "add_value_piece", IO_VAL, "valAddPiece", "(&mut self, value: &[u8]) -> Result<ValuePiece>",
+     ["value"], "(c : FileCfg) (value : List Nat) : M (Nat × Nat)", ["offset", "size"]),
+    (VCO, "read_piece", IO_VAL, "valReadPiece", "(&mut self, offset: ValuePieceOffset) -> Result<ValuePiece>",
+     ["off"], "(off : Nat) : M (Nat × List Nat)", ["size", "value"]),
+    (VCO, "read_piece_only_size", IO_VAL, "valReadPieceOnlySize",
+     "(&mut self, offset: ValuePieceOffset) -> Result<ValuePieceSize>", ["off"], "(off : Nat) : M Nat"),
+    (VCO, "read_piece_only_value_length", IO_VAL, "valReadPieceOnlyValueLength",
+     "(&mut self, offset: ValuePieceOffset) -> Result<ValueLength>", ["off"], "(off : Nat) : M Nat"),
+    (VCO, "read_piece_only_value", IO_VAL, "valReadPieceOnlyValue",
+     "(&mut self, offset: ValuePieceOffset) -> Result<Vec<u8>>", ["off"], "(off : Nat) : M (List Nat)"),
+    # ---- key file (key.rs); a key `KT` is its bytes
+    (KPO, "dat_write_piece_one", IO_KEY, "keyDatWritePieceOne", "(&self, file: &mut VarFile) -> Result<()>",
+     [_KP, None], "(off size : Nat) (key : List Nat) (valueOffset bucketNextOffset : Nat) : M Unit"),
+    (KCO, "delete_piece", IO_KEY, "keyDeletePiece", "(&mut self, offset: KeyPieceOffset) -> Result<KeyPieceSize>",
+     ["off"], "(c : FileCfg) (off : Nat) : M Nat"),
+    (KCO, "write_piece", IO_KEY, "keyWritePiece", "(&mut self, mut piece: KeyPiece<KT>, is_new: bool) -> Result<KeyPiece<KT>>",
+     [_KP_W, "isNew"],
+     "(c : FileCfg) (off : Nat) (key : List Nat) (valueOffset bucketNextOffset : Nat) (isNew : Bool) : M (Nat × Nat)",
+     ["offset", "size"]),
+    (KCO, "add_key_piece", IO_KEY, "keyAddPiece",
+     "(&mut self, key: &KT, value_offset: ValuePieceOffset, bucket_next_offset: KeyPieceOffset,) -> Result<KeyPiece<KT>>",
+     ["key", "valueOffset", "bucketNextOffset"],
+     "(c : FileCfg) (key : List Nat) (valueOffset bucketNextOffset : Nat) : M (Nat × Nat)", ["offset", "size"]),
+    (KCO, "read_piece", IO_KEY, "keyReadPiece", "(&mut self, offset: KeyPieceOffset) -> Result<KeyPiece<KT>>",
+     ["off"], "(off : Nat) : M (Nat × List Nat × Nat × Nat)", ["size", "key", "value_offset", "bucket_next_offset"]),
+    (KCO, "read_piece_only_size", IO_KEY, "keyReadPieceOnlySize",
+     "(&mut self, offset: KeyPieceOffset) -> Result<KeyPieceSize>", ["off"], "(off : Nat) : M Nat"),
+    (KCO, "read_piece_only_key_length", IO_KEY, "keyReadPieceOnlyKeyLength",
+     "(&mut self, offset: KeyPieceOffset) -> Result<KeyLength>", ["off"], "(off : Nat) : M Nat"),
+    (KCO, "read_piece_only_key_maybeslice", IO_KEY, "keyReadPieceOnlyKeyMaybeslice",
+     "(&mut self, offset: KeyPieceOffset,) -> Result<rabuf::MaybeSlice>", ["off"], "(off : Nat) : M (List Nat)"),
+    (KCO, "read_piece_only_key", IO_KEY, "keyReadPieceOnlyKey",
+     "(&mut self, offset: KeyPieceOffset) -> Result<KT>", ["off"], "(off : Nat) : M (List Nat)"),
+    (KCO, "read_piece_only_value_offset", IO_KEY, "keyReadPieceOnlyValueOffset",
+     "(&mut self, offset: KeyPieceOffset) -> Result<ValuePieceOffset>", ["off"], "(off : Nat) : M Nat"),
+    (KCO, "read_piece_only_bucket_next_offset", IO_KEY, "keyReadPieceOnlyBucketNextOffset",
+     "(&mut self, offset: KeyPieceOffset,) -> Result<KeyPieceOffset>", ["off"], "(off : Nat) : M Nat"),
 ]
 
 
@@ -2339,6 +3010,8 @@ def io_pin_semtype(repo, feats):
         ("from", "From<Offset<T>> for u64", "(value: Offset<T>) -> Self", {"value.val": ("a", "u64")}, "a"),
         ("from", "From<Size<T>> for u32", "(value: Size<T>) -> Self", {"value.val": ("a", "u32")}, "a"),
         ("from", "From<Length<T>> for u32", "(value: Length<T>) -> Self", {"value.val": ("a", "u32")}, "a"),
+        # `val_len.into()` as the `usize` argument of `read_exact_maybeslice` (64-bit target)
+        ("from", "From<Length<T>> for usize", "(value: Length<T>) -> Self", {"value.val": ("a", "u32")}, "a"),
     ]
     for rust, impl, sig, subst, want in pins:
         partial, term, _notes = translate_fn(repo, feats, IO_ST, rust, None, [], subst, {}, {}, impl=impl,
@@ -2346,25 +3019,84 @@ def io_pin_semtype(repo, feats):
         if partial or term != want:
             fail("%s::<impl<T> %s>::%s translates to `%s`, the imperative I/O subset assumes `%s`"
                  % (IO_ST, impl, rust, term.replace("\n", " "), want.replace("\n", " ")))
-    # comparisons are the derived ones: `val` is the first field, the second is PhantomData
+    # comparisons are the derived ones: `val` is the first field, the second is PhantomData;
+    # `Default` (the fields a piece constructor leaves out) is the derived one: 0
     src = strip_comments(open(os.path.join(repo, IO_ST)).read())
     for ty_, w_ in (("Offset", "u64"), ("Size", "u32"), ("Length", "u32")):
-        if not re.search(r"#\[derive\(([^)]*,\s*)?PartialEq,\s*PartialOrd\b[^)]*\)\]\s*pub\s+struct\s+%s<T>\s*\{\s*val:\s*%s,"
+        if not re.search(r"#\[derive\(([^)]*,\s*)?Default,[^)]*\bPartialEq,\s*PartialOrd\b[^)]*\)\]\s*pub\s+struct\s+%s<T>\s*\{\s*val:\s*%s,"
                          r"\s*_phantom:\s*PhantomData<fn\(\)\s*->\s*T>,\s*\}" % (ty_, w_), src):
-            fail("%s: struct %s<T> is not `#[derive(.. PartialEq, PartialOrd ..)] { val: %s, _phantom }`" % (IO_ST, ty_, w_))
+            fail("%s: struct %s<T> is not `#[derive(.. Default, .. PartialEq, PartialOrd ..)] { val: %s, _phantom }`" % (IO_ST, ty_, w_))
+    # the type aliases used in key.rs / val.rs
+    for alias, target in (("PieceOffset<T>", "Offset<Piece<T>>"), ("PieceSize<T>", "Size<Piece<T>>"),
+                          ("KeyPieceOffset", "PieceOffset<Key>"), ("ValuePieceOffset", "PieceOffset<Value>"),
+                          ("KeyPieceSize", "PieceSize<Key>"), ("ValuePieceSize", "PieceSize<Value>"),
+                          ("KeyLength", "Length<Key>"), ("ValueLength", "Length<Value>")):
+        if not re.search(r"pub\s+type\s+%s\s*=\s*%s\s*;" % (re.escape(alias), re.escape(target)), src):
+            fail("%s: `pub type %s = %s;` not found" % (IO_ST, alias, target))
+    # `new(val: uN)`: the width in which an arithmetic argument of a constructor is computed
+    for ty_, w_ in (("Offset", "u64"), ("Size", "u32"), ("Length", "u32")):
+        if not re.search(r"impl<T>\s+%s<T>\s*\{\s*(#\[inline\]\s*)?pub\s+fn\s+new\(val:\s*%s\)\s*->\s*Self\s*\{\s*Self\s*\{\s*val,"
+                         r"\s*_phantom:\s*PhantomData,\s*\}\s*\}" % (ty_, w_), src):
+            fail("%s: `%s<T>::new(val: %s)` is not the plain constructor" % (IO_ST, ty_, w_))
 
 
-def emit_fileops(repo, feats, out):
+def io_pin_structs(repo, feats, pure_names):
+    """the definitions of the piece structs, of the constructors used, of the wrappers around the VarFile"""
+    for name, st in IO_STRUCTS.items():
+        lead = "pub struct " + name
+        got = io_find_item_tokens(repo, st["file"], lead)
+        want = [v for _k, v in tokenize(st["decl"])]
+        if got != want:
+            fail("%s: the definition of `%s` is `%s`, the translation is configured for `%s`"
+                 % (st["file"], name, " ".join(got), " ".join(want)))
+        if [f for f, _c in st["fields"]] != re.findall(r"pub (\w+) :", " ".join(want)):
+            fail("%s: configuration error: fields of `%s`" % (st["file"], name))
+        methods = io_find_methods(repo, feats, st["file"], st["impl"])
+        for ctor, (txt, _how) in st["ctors"].items():
+            cands = methods.get(ctor, [])
+            if len(cands) != 1:
+                fail("%s::<%s>::%s: %d definitions (exactly one expected)" % (st["file"], st["impl"], ctor, len(cands)))
+            got = [v for _k, v in cands[0][0]]
+            want = [v for _k, v in tokenize(txt)]
+            if got != want:
+                fail("%s::<%s>::%s is `%s`, the translation is configured for `%s`"
+                     % (st["file"], st["impl"], ctor, " ".join(got), " ".join(want)))
+        for m, (lean, _a, _r, _w) in st["pure"].items():
+            if lean not in pure_names:
+                fail("%s::<%s>::%s: its translation `%s` is not in Funcs.lean" % (st["file"], st["impl"], m, lean))
+    for owner, (_h, _vf, pin) in IO_OWNERS.items():
+        if pin is not None:
+            src = strip_comments(open(os.path.join(repo, pin[0])).read())
+            if len(re.findall(pin[1], src)) != 1:
+                fail("%s: `%s` is not the tuple struct around the VarFile the translation is configured for" % (pin[0], owner))
+
+
+def io_struct_fields(owner_where, sname, cfg):
+    """configuration `{field: Lean name | -Lean name}` of a flattened struct parameter -> fields of IoParam"""
+    st = IO_STRUCTS[sname]
+    if not isinstance(cfg, dict) or sorted(cfg) != sorted(f for f, _c in st["fields"]):
+        fail("%s: configuration error: the fields of the `%s` parameter" % (owner_where, sname))
+    return [(f, c, cfg[f].lstrip("-"), not cfg[f].startswith("-")) for f, c in st["fields"]]
+
+
+def emit_fileops(repo, feats, out, pure_names):
     io_pin_semtype(repo, feats)
-    methods = {rel: io_find_methods(repo, feats, rel, "VarFile") for rel in (IO_VF, IO_PI)}
+    io_pin_structs(repo, feats, pure_names)
+    methods = {}
     fns = {}
-    for rust, rel, lean, sig, pnames, lsig in IO_FUNCS:
-        where = "%s::<impl VarFile>::%s" % (rel, rust)
-        cands = methods[rel].get(rust, [])
+    strip_tc = lambda ts: [v for j, v in enumerate(ts) if not (v == "," and j + 1 < len(ts) and ts[j + 1] == ")")]
+    for spec in IO_FUNCS:
+        owner, rust, rel, lean, sig, pnames, lsig = spec[:7]
+        ret_fields = spec[7] if len(spec) > 7 else None
+        header, vf_text, _pin = IO_OWNERS[owner]
+        where = "%s::<%s>::%s" % (rel, header, rust)
+        if (rel, header) not in methods:
+            methods[(rel, header)] = io_find_methods(repo, feats, rel, header)
+        cands = methods[(rel, header)].get(rust, [])
         if len(cands) != 1:
             fail("%s: %d definitions with a true `#[cfg]` (exactly one expected)" % (where, len(cands)))
         toks, blockdesc = cands[0]
-        params, ret, ib = io_parse_sig(toks, where)
+        recv, params, ret, ib = io_parse_sig(toks, where)
         got = [v for _k, v in toks[2:ib]]
         if got and got[0] == "<":
             depth, j = 0, 0
@@ -2375,63 +3107,113 @@ def emit_fileops(repo, feats, out):
                     break
             got = got[j:]
         # a trailing comma of the parameter list (rustfmt, multi-line signatures) is not significant
-        got = [v for j, v in enumerate(got) if not (v == "," and j + 1 < len(got) and got[j + 1] == ")")]
-        want = [v for _k, v in tokenize(sig)]
+        got = strip_tc(got)
+        want = strip_tc([v for _k, v in tokenize(sig)])
         if got != want:
             fail("%s: signature is `%s`, the translation is configured for `%s`" % (where, " ".join(got), " ".join(want)))
         if not (ret.startswith("Result<") and ret.endswith(">")):
             fail("%s: the return type `%s` is not `Result<..>`" % (where, ret))
         f = IoFn()
-        f.rust, f.rel, f.lean, f.where, f.lsig = rust, rel, lean, where, lsig
+        f.owner, f.rust, f.rel, f.lean, f.where, f.lsig = owner, rust, rel, lean, where, lsig
         f.src = "%s %s, `fn %s`" % (rel, blockdesc, rust)
         f.ret = io_sig_type(ret[len("Result<"):-1], where)
-        if len(pnames) != len(params):
-            fail("%s: %d parameters, %d configured" % (where, len(params), len(pnames)))
-        f.params = [(pn, ln, io_sig_type(pt, where)) for (pn, pt), ln in zip(params, pnames)]
-        for _pn, _ln, pt in f.params:
-            if pt not in ("Offset", "Size", "Length", "int"):
-                fail("%s: parameter of class %r" % (where, pt))
+        f.ret_fields, f.ret_omitted = None, None
+        if isinstance(f.ret, tuple) and f.ret[0] == "struct":
+            names = [x for x, _c in IO_STRUCTS[f.ret[1]]["fields"]]
+            if not ret_fields or [x for x in names if x in ret_fields] != list(ret_fields):
+                fail("%s: configuration error: the returned fields of `%s`" % (where, f.ret[1]))
+            f.ret_fields = list(ret_fields)
+        elif ret_fields is not None or f.ret == "vfile":
+            fail("%s: configuration error: return type" % where)
+        f.vf_texts = set([vf_text] if vf_text else [])
+        f.struct_params = {}
+        f.params = []
+        f.recv_struct = owner in IO_STRUCTS
+        pn = list(pnames)
+        if f.recv_struct:
+            if recv != "&self" or not pn:
+                fail("%s: the receiver is `%s` (`&self` expected for a method of a piece struct)" % (where, recv))
+            f.params.append(IoParam("self", ("struct", owner), fields=io_struct_fields(where, owner, pn.pop(0))))
+            f.struct_params["self"] = owner
+        elif recv != "&mut self":
+            fail("%s: the receiver is not `&mut self`" % where)
+        if len(pn) != len(params):
+            fail("%s: %d parameters, %d configured" % (where, len(params), len(pn)))
+        for (prust, pt), ln in zip(params, pn):
+            cls = io_sig_type(pt, where)
+            if cls == "vfile":
+                if ln is not None or vf_text is not None:
+                    fail("%s: configuration error: `&mut VarFile` parameter `%s`" % (where, prust))
+                f.vf_texts.add(prust)
+                f.params.append(IoParam(prust, "vfile"))
+            elif isinstance(cls, tuple) and cls[0] == "struct":
+                f.params.append(IoParam(prust, cls, fields=io_struct_fields(where, cls[1], ln)))
+                f.struct_params[prust] = cls[1]
+            elif cls in NUMERIC or cls in ("bool", "bytes"):
+                if not isinstance(ln, str):
+                    fail("%s: configuration error: Lean name of `%s`" % (where, prust))
+                f.params.append(IoParam(prust, cls, lean=ln, width=pt if pt in WIDTH else None))
+            else:
+                fail("%s: parameter `%s` of class %r" % (where, prust, cls))
+        if len(f.vf_texts) != 1:
+            fail("%s: %d expressions denote the VarFile (exactly one expected)" % (where, len(f.vf_texts)))
         p = P(toks[ib:], feats, where)
         p.keep_try = True
         f.body = p.block()
         if p.i != len(toks) - ib:
             fail("%s: tokens after the body" % where)
         f.dropped = p.dropped
-        fns[rust] = f
+        fns[(owner, rust)] = f
     # order: callees first
     for f in fns.values():
         f.calls = []
         for n in io_walk(f.body):
-            if n[0] == "mcall" and n[1] == ("path", ["self"]) and n[2] in fns and n[2] not in f.calls:
-                f.calls.append(n[2])
+            if n[0] == "mcall":
+                k = io_callee_key(f, n)
+                if k in fns and k not in f.calls:
+                    f.calls.append(k)
     done, order = {}, []
 
-    def visit(name, stack):
-        if name in done:
+    def visit(key, stack):
+        if key in done:
             return
-        if name in stack:
-            fail("%s: recursion (%s)" % (fns[name].where, " -> ".join(stack + [name])))
-        for g in fns[name].calls:
-            visit(g, stack + [name])
-        f = fns[name]
-        f.needs_c = io_uses_c(f.body, done)
+        if key in stack:
+            fail("%s: recursion (%s)" % (fns[key].where, " -> ".join("%s::%s" % k for k in stack + [key])))
+        for g in fns[key].calls:
+            visit(g, stack + [key])
+        f = fns[key]
+        f.needs_c = io_uses_c(f.body, f, done)
         em = EmitIO(f, done)
         body = em.seq(f.body[1], f.body[2], CtxFn(em))
         f.aux = em.aux
         f.notes = sorted(set(em.notes)) + f.dropped
+        if f.ret_fields is not None:
+            if f.ret_omitted is None:
+                fail("%s: no `Ok(<piece struct>)` was translated" % f.where)
+            sf = dict(IO_STRUCTS[f.ret[1]]["fields"])
+            rty = ("tuple", [sf[x] for x in f.ret_fields]) if len(f.ret_fields) > 1 else sf[f.ret_fields[0]]
+            f.value_note = " Value: the fields (%s) of the returned `%s`; %s." % (
+                ", ".join("`%s`" % x for x in f.ret_fields), f.ret[1],
+                ", ".join("its `%s` is the unchanged parameter `%s`" % (k, v) for k, v in sorted(f.ret_omitted.items())))
+        else:
+            rty = f.ret
+            f.value_note = ""
         # the derived Lean signature must be the configured one
-        derived = re.sub(r"\s+", " ", ("(c : FileCfg) " if f.needs_c else "") + (
-            "(" + " ".join(ln for _pn, ln, _t in f.params) + " : Nat) " if f.params else "") + ": M " + io_atom(io_lean_ty(f.ret)))
+        lps = [lp for p_ in f.params for lp in p_.lean_params()]
+        derived = " ".join(([("(c : FileCfg)")] if f.needs_c else []) + ([io_group_params(lps)] if lps else [])
+                           + [": M " + io_atom(io_lean_ty(rty))])
         if derived != f.lsig:
             fail("%s: the Lean signature is `%s`, expected `%s`" % (f.where, derived, f.lsig))
         f.text = "def %s %s := do\n%s" % (f.lean, derived, "\n".join(ind(body)))
-        done[name] = f
+        done[key] = f
         order.append(f)
 
-    for rust, *_ in IO_FUNCS:
-        visit(rust, [])
-    if sorted(f.rust for f in order) != sorted(x[0] for x in IO_FUNCS):
+    for spec in IO_FUNCS:
+        visit((spec[0], spec[1]), [])
+    if sorted((f.owner, f.rust) for f in order) != sorted((x[0], x[1]) for x in IO_FUNCS):
         fail("FileOps: the set of emitted functions is not the configured one")
+    if len(set(f.lean for f in order)) != len(order):
+        fail("FileOps: two functions with the same Lean name")
     with open(os.path.join(out, "FileOps.lean"), "w") as fh:
         fh.write("import Abyss.FileM\nimport Abyss.Gen.Funcs\nimport Abyss.RecFile\n")
         fh.write(IO_HEADER)
@@ -2439,28 +3221,48 @@ def emit_fileops(repo, feats, out):
         for f in order:
             for doc, text in f.aux:
                 fh.write("/-- %s -/\n%s\n\n" % (doc, text))
-            fh.write("/-- %s.%s -/\n%s\n\n" % (f.src, (" Dropped: " + "; ".join(f.notes) + ".") if f.notes else "", f.text))
+            fh.write("/-- %s.%s%s -/\n%s\n\n" % (f.src, f.value_note,
+                                                  (" Dropped: " + "; ".join(f.notes) + ".") if f.notes else "", f.text))
         fh.write("end Abyss.Gen\n")
     return len(order)
 
 
 IO_HEADER = """/-! GENERATED by tools/rs2lean.py from /repo — do not edit.
-Byte-level I/O of the record-file allocator: the `&mut self` methods of `VarFile`
-(src/filedb/inner/vfile.rs, src/filedb/inner/piece.rs) as functions in `Abyss.FileM.M`.
+Byte-level I/O of the record files: the `&mut self` methods of `VarFile`
+(src/filedb/inner/vfile.rs, src/filedb/inner/piece.rs) and the piece-level I/O of the value file and the
+key file (src/filedb/inner/val.rs `ValuePiece`, `VarFileValueCache`; src/filedb/inner/key.rs `KeyPiece<KT>`,
+`VarFileKeyCache<KT>`) as functions in `Abyss.FileM.M`.
 
-* `Result<T>` with `?` is the failure of the monad; `Ok(e)` is `pure e`; `.map(|v| e)` is bind + pure.
-* `self.<method>(..)` is the translated function of that name or a bottom primitive of `Abyss.FileM`
-  (`read_u64_le`, `write_u64_le`, `read_and_decode_vu64`, `encode_and_write_vu64`,
-  `buf_file.write_zero`, `seek(SeekFrom::Start(_))`, `stream_position`); `self.piece_mgr` is `c : FileCfg`
-  (`free_list_offset` = `c.freeOffsets`, `size_ary` = `c.sizeAry`).
-* the unit-of-measure newtypes of semtype.rs (`Offset<T>`, `PieceOffset<T>`, `PieceSize<T>`, `KeyLength`)
-  are erased to `Nat`: `new`, `into`, `as_value` are the identity, `is_zero` is `== 0`, comparisons are
-  those of the numbers, `Offset + PieceSize` is `+`, `Offset - Offset` is `(a - b) % 2^32`
+* `Result<T>` with `?` is the failure of the monad; `Ok(e)` is `pure e`; `.map(|v| e)` is bind + pure;
+  `assert!(c)` is `if !c then FileM.fail`.
+* a method of the VarFile (`self.<m>(..)` in `impl VarFile`, `self.0.<m>(..)` in the two `VarFile…Cache` tuple
+  structs, `file.<m>(..)` for a parameter `file: &mut VarFile`) is the translated function of that name or a
+  bottom primitive of `Abyss.FileM` (`read_u64_le`, `write_u64_le`, `read_and_decode_vu64`,
+  `encode_and_write_vu64`, `buf_file.write_zero`, `buf_file.read_u8`, `write_all`, `read_exact_maybeslice`,
+  `seek(SeekFrom::Start(_))`, `seek(SeekFrom::End(0))`, `seek(SeekFrom::Current(n as i64))` with `n: u32`,
+  `stream_position`); its `piece_mgr` is `c : FileCfg` (`free_list_offset` = `c.freeOffsets`,
+  `size_ary` = `c.sizeAry`; `piece_mgr.roundup(s)` = `roundup c.sizeAry s` of Funcs.lean).
+* the unit-of-measure newtypes of semtype.rs (`Offset<T>`, `PieceOffset<T>`, `PieceSize<T>`, `Length<T>` and their
+  `Key…`/`Value…` aliases) are erased to `Nat`: `new`, `into`, `as_value` are the identity, `is_zero` is `== 0`,
+  comparisons are those of the numbers, `Offset + PieceSize` is `+`, `Offset - Offset` is `(a - b) % 2^32`
   (`(self.val - rhs.val) as u32`; only accepted under a guard `if a > b` that makes `a - b` exact).
   These readings are checked against semtype.rs on every run.  `n as uN` is `% 2^N`.
-  `+` and `*` are those of `Nat` (overflow of the Rust integer type is outside the model, as in Funcs.lean).
-* `debug_assert!`, statements under a false `#[cfg(..)]` (`debug_assertions` is false) and the read-ahead
-  hint `prepare` are left out; each doc comment lists what was dropped from that function.
+  `+` and `*` are those of `Nat` (overflow of the Rust integer type is outside the model, as in Funcs.lean),
+  except for a sum of `u32` variables that is the argument of `PieceSize::new(val: u32)`: `% 2^32` (release build).
+* byte sequences (`Vec<u8>`, `&[u8]`, `rabuf::MaybeSlice`) and keys (`KT: DbMapKeyType`) are `List Nat`:
+  `to_vec`, `into_vec`, `clone`, `as_bytes`, `KT::from_bytes` are the identity, `len()` is `.length`.
+* a piece struct (`ValuePiece`, `KeyPiece<KT>`; definitions and the constructors `with`, `with_value`,
+  `with_key_value_next` are compared with the configured text on every run) is flattened into its fields:
+  a struct parameter / `&self` becomes one Lean parameter per field that the function reads before it assigns
+  it (`write_piece` assigns `size` first: no parameter), `piece.f = e;` re-binds that variable, a returned
+  struct is the tuple of the fields named in the doc comment (the other fields are checked to be unchanged
+  parameters), `piece.encoded_piece_size()` is `valueEncodedPieceSize` / `keyEncodedPieceSize` of Funcs.lean.
+* `if c { A } else { B }; rest` where a branch returns: `rest` is the continuation of every branch that does not
+  (`if c then (A; rest) else (B; rest)`).
+* `debug_assert!`, statements under a false `#[cfg(..)]` (`debug_assertions` is false), the read-ahead
+  hint `prepare` and the error-recovery arm of `match piece.dat_write_piece_one(..) { Ok(()) => (), Err(err) =>
+  { let _ = self.0.set_file_length(..); return Err(err); } }` are left out; each doc comment lists what was
+  dropped from that function.
 * a `while` loop is an auxiliary function `<name>Loop`, structurally recursive on `fuel`, over the tuple
   of variables the loop assigns; `fuel = 0` is `FileM.fail`; the caller passes `(← FileM.fileLen) + 1`
   (a free list cannot have more slots than the file has bytes).
@@ -2623,7 +3425,7 @@ def main():
     # ---------------- byte-level I/O of the allocator (monadic)
     global STAGE
     STAGE = "fileops"
-    n_io = emit_fileops(repo, feats, out)
+    n_io = emit_fileops(repo, feats, out, set(x[0] for x in F))
     print("rs2lean: wrote %d constants, %d functions, %d file operations (features: %s)"
           % (len(C), len(F), n_io, ",".join(sorted(feats))))
 
